@@ -1,5 +1,26 @@
-(* C01 / C05 for the 2D source-line initialisation `fteik2d_p2` (block `if iflag == 2:` of _fteik/_fteik2d.py).
-   Built on the decomposition of proofs/InitSym.v (init_corners, east/west/down/up_phase, blk_x, blk_z). *)
+(* C01 / C05 for the 2D source-line initialisation `fteik2d_p2` (block `if iflag == 2:` of _fteik/_fteik2d.py), over R.
+   Built on the decomposition of proofs/InitSym.v (init_corners, east/west/down/up_phase, blk_x, blk_z) and on the
+   operator facts of proofs/OperatorsR.v.
+
+   A. real-number facts: t_ana is monotone along a grid line away from the source (t_ana_mono_x/z), is at least the
+      1D time along the line (t_ana_ge_x/z), delta without perturbation returns the analytic time (delta_homog).
+   B. homogeneous medium: one block is "if dzw > 0 and tt[prev] < Big then tt[node] := t_ana(node)" (blk_x_eq, blk_z_eq:
+      the admissibility guard `tnew >= tt[prev] and tnew >= td[k]` ALWAYS passes), `Desc` describes a state (set of
+      exact nodes, the others Big, signs), the four phases extend the set (east/west/down/up_phase_desc), `init_desc`.
+   C. C01 (exactness):
+        fteik2d_init_homogeneous_exact         every node holds t_ana (nodes of `init_set`) or Big (the others)
+        init_set_spelled_out                   which nodes: corners, then along the 2 rows / 2 columns of the source
+                                               cell while the previous node is below Big and the line is enabled
+        fteik2d_init_homogeneous_exact_or_Big  corollary
+        fteik2d_init_homogeneous_signs         grad = true: loop-set nodes carry (-1 | +1, -1 | +1) as in the code
+        fteik2d_init_homogeneous_exact_ex, FloatExample.homogeneous_pattern_binary64   non-vacuity
+   D. frames: which nodes a block / body / phase may modify (any medium): *_frame.
+   E. C05 (unit invariance), for slowness scaling and length scaling at once (`skind`):
+        blk_x_sim / blk_z_sim, *_body_sim, *_phase_sim, init_scale
+        fteik2d_init_scale_slowness, fteik2d_init_scale_length       caveat: related entries are on the same side of Big
+        fteik2d_init_scale_slowness_ge1, fteik2d_init_scale_length_ge1   c >= 1: caveat on the reference run only
+        fteik2d_init_scale_slowness_ex, fteik2d_init_scale_length_ex  non-vacuity (c = 2)
+*)
 From Coq Require Import ZArith List Bool Lia Reals Lra Psatz.
 From FT.lib Require Import Num Arr ArrLemmas.
 From FT.gen Require Import Common Fteik2d.
@@ -798,10 +819,10 @@ Lemma init_set_spelled_out dz dx vzero zsa xsa zsi xsi i j :
   let col_ok := (j = xsi + 1 /\ (0 < dxe)%R) \/ (j = xsi /\ (0 < dxw)%R) in
   init_set dz dx vzero zsa xsa zsi xsi i j <->
     (zsi <= i <= zsi + 1 /\ xsi <= j <= xsi + 1) \/
-    (row_ok /\ xsi + 2 <= j /\ (ta i (j - 1) < Big)%R) \/
-    (row_ok /\ j <= xsi - 1 /\ (ta i (j + 1) < Big)%R) \/
-    (col_ok /\ zsi + 2 <= i /\ (ta (i - 1) j < Big)%R) \/
-    (col_ok /\ i <= zsi - 1 /\ (ta (i + 1) j < Big)%R).
+    (row_ok /\ xsi + 2 <= j /\ (ta i (j - 1)%Z < Big)%R) \/
+    (row_ok /\ j <= xsi - 1 /\ (ta i (j + 1)%Z < Big)%R) \/
+    (col_ok /\ zsi + 2 <= i /\ (ta (i - 1)%Z j < Big)%R) \/
+    (col_ok /\ i <= zsi - 1 /\ (ta (i + 1)%Z j < Big)%R).
 Proof. reflexivity. Qed.
 
 Theorem fteik2d_init_homogeneous_exact nz nx dz dx grad slow tt ttgrad ttsgn vzero zsa xsa zsi xsi :
@@ -872,3 +893,1196 @@ Proof.
   fold r in D. destruct D as (_ & _ & _ & _ & Hsg). destruct (Hsg eq_refl) as (_ & _ & _ & Hs).
   exact (Hs i j Hi Hj Hset Hnc).
 Qed.
+
+(* ---------- non-vacuity ---------- *)
+Lemma sqrt_lt_Big (x : R) : (0 <= x < 100000 * 100000)%R -> (sqrt x < @Big R NumR)%R.
+Proof.
+  intros Hx. change (@Big R NumR) with 100000%R. rewrite <- (sqrt_square 100000) by lra.
+  apply sqrt_lt_1_alt. exact Hx.
+Qed.
+
+(* 4 x 4 nodes, dz = 1, dx = 2, slowness 1, source at (5/4, 3/2) inside cell (1, 1): node (2, 3) is written by the
+   east loop (with the analytic time sqrt ((3/4)^2 + 3^2) and signs (+1, +1)), node (0, 1) by the up loop, and
+   the corner (0, 0) of the grid is not touched *)
+Example fteik2d_init_homogeneous_exact_ex :
+  let r := fteik2d_p2 2%R 1%R true 2 4 4 (full [3; 3] 1%R) (full [4; 4] Big) (full [4; 4; 2] 0%R) (full [4; 4; 2] 0)
+             1%R (3 / 2)%R 1 (5 / 4)%R 1 in
+  get 0%R (fst (fst r)) [2; 3] = t_ana 2 3 1%R 2%R (5 / 4)%R (3 / 2)%R 1%R /\
+  t_ana 2 3 1%R 2%R (5 / 4)%R (3 / 2)%R 1%R = sqrt ((3 / 4) ^ 2 + 3 ^ 2)%R /\
+  get 0 (snd r) [2; 3; 0] = 1 /\ get 0 (snd r) [2; 3; 1] = 1 /\
+  get 0%R (fst (fst r)) [0; 1] = t_ana 0 1 1%R 2%R (5 / 4)%R (3 / 2)%R 1%R /\
+  get 0 (snd r) [0; 1; 0] = -1 /\ get 0 (snd r) [0; 1; 1] = -1 /\
+  get 0%R (fst (fst r)) [0; 0] = Big.
+Proof.
+  intros r.
+  assert (Hslow : forall i j, 0 <= i < 4 - 1 -> 0 <= j < 4 - 1 -> get 0%R (full [3; 3] 1%R) [i; j] = 1%R).
+  { intros i j Hi Hj. apply get_full. cbn [inb_sh].
+    repeat (apply andb_true_intro; split); first [reflexivity | apply Z.leb_le; lia | apply Z.ltb_lt; lia]. }
+  assert (Hbig : forall i j, 0 <= i < 4 -> 0 <= j < 4 -> get 0%R (full [4; 4] (@Big R NumR)) [i; j] = Big).
+  { intros i j Hi Hj. apply get_full. cbn [inb_sh].
+    repeat (apply andb_true_intro; split); first [reflexivity | apply Z.leb_le; lia | apply Z.ltb_lt; lia]. }
+  assert (Wt : wf (full [4; 4] (@Big R NumR))) by (apply wf_full; repeat constructor; lia).
+  assert (Ws : wf (full [4; 4; 2] 0)) by (apply wf_full; repeat constructor; lia).
+  assert (A1 : Rabs (5 / 4 - 1) = (1 / 4)%R) by (rewrite Rabs_pos_eq; lra).
+  assert (A2 : Rabs (3 / 2 - 1) = (1 / 2)%R) by (rewrite Rabs_pos_eq; lra).
+  (* node (2, 3): east loop, previous node (2, 2) at time 5/4 *)
+  assert (S23 : init_set 1 2 1 (5 / 4) (3 / 2) 1 1 2 3).
+  { apply init_set_spelled_out. right. left. split; [left; split; [lia | rewrite A1; lra]|]. split; [lia|].
+    rewrite t_ana_exact. rewrite Rmult_1_l. apply sqrt_lt_Big. change (IZR (3 - 1)) with 2%R. change (IZR 2) with 2%R. lra. }
+  (* node (0, 1): up loop, previous node (1, 1) at time sqrt (1/16 + 1) *)
+  assert (S01 : init_set 1 2 1 (5 / 4) (3 / 2) 1 1 0 1).
+  { apply init_set_spelled_out. right. right. right. right. split; [right; split; [lia | rewrite A2; lra]|]. split; [lia|].
+    rewrite t_ana_exact. rewrite Rmult_1_l. apply sqrt_lt_Big. change (IZR (0 + 1)) with 1%R. change (IZR 1) with 1%R. lra. }
+  assert (N00 : ~ init_set 1 2 1 (5 / 4) (3 / 2) 1 1 0 0).
+  { intros Hs. cbv beta zeta delta [init_set InitSet Corner EastSet WestSet DownSet UpSet RowOK ColOK] in Hs.
+    destruct Hs as [?|[([[? _]|[? _]] & _)|[([[? _]|[? _]] & _)|[([[? _]|[? _]] & _)|([[? _]|[? _]] & _)]]]]; lia. }
+  pose proof (fteik2d_init_homogeneous_exact 4 4 1 2 true (full [3; 3] 1%R) (full [4; 4] Big) (full [4; 4; 2] 0%R)
+                (full [4; 4; 2] 0) 1 (5 / 4) (3 / 2) 1 1 ltac:(lra) ltac:(lra) ltac:(lra) ltac:(lia) ltac:(lia)
+                ltac:(lra) ltac:(lra) Hslow Wt eq_refl Hbig) as E. fold r in E.
+  pose proof (fteik2d_init_homogeneous_signs 4 4 1 2 (full [3; 3] 1%R) (full [4; 4] Big) (full [4; 4; 2] 0%R)
+                (full [4; 4; 2] 0) 1 (5 / 4) (3 / 2) 1 1 ltac:(lra) ltac:(lra) ltac:(lra) ltac:(lia) ltac:(lia)
+                ltac:(lra) ltac:(lra) Hslow Wt eq_refl Hbig Ws eq_refl) as G. fold r in G.
+  destruct (E 2 3 ltac:(lia) ltac:(lia)) as (_ & E23 & _).
+  destruct (E 0 1 ltac:(lia) ltac:(lia)) as (_ & E01 & _).
+  destruct (E 0 0 ltac:(lia) ltac:(lia)) as (_ & _ & E00).
+  destruct (G 2 3 ltac:(lia) ltac:(lia) S23 ltac:(lia)) as [G1 G2].
+  destruct (G 0 1 ltac:(lia) ltac:(lia) S01 ltac:(lia)) as [G3 G4].
+  split; [exact (E23 S23)|]. split.
+  { rewrite t_ana_exact, Rmult_1_l. f_equal. change (IZR 2) with 2%R. change (IZR 3) with 3%R. lra. }
+  split; [exact G1|]. split; [exact G2|]. split; [exact (E01 S01)|]. split; [exact G3|]. split; [exact G4|].
+  exact (E00 N00).
+Qed.
+
+(* the same pattern on binary64 (the generated function evaluated by vm_compute): 5 x 5 nodes, dz = 1, dx = 2,
+   slowness 3/2, source (9/4, 7/4) in cell (2, 1).  Rows 2, 3 and columns 1, 2 are written and agree with the
+   analytic time to 2^-49 (the guard `tnew >= tt[prev] and tnew >= td[k]` passes in floating point here too), the
+   other nodes keep Big *)
+Module FloatExample.
+Import PrimFloat.
+Definition ex_run :=
+  fteik2d_p2 (T := float) 2.0%float 1.0%float true 2 5 5 (full [4; 4] 1.5%float) (full [5; 5] Big)
+    (full [5; 5; 2] 0%float) (full [5; 5; 2] 0) 1.5%float 1.75%float 1 2.25%float 2.
+Definition close (i j : Z) : bool :=
+  PrimFloat.leb (PrimFloat.abs (PrimFloat.sub (get 0%float (fst (fst ex_run)) [i; j])
+                                               (t_ana i j 1.0%float 2.0%float 2.25%float 1.75%float 1.5%float)))
+                0x1p-49%float.
+Definition is_big (i j : Z) : bool := PrimFloat.eqb (get 0%float (fst (fst ex_run)) [i; j]) Big.
+Example homogeneous_pattern_binary64 :
+  map (fun i => map (fun j => (close i j, is_big i j)) [0; 1; 2; 3; 4]) [0; 1; 2; 3; 4] =
+  let w := (true, false) in let u := (false, true) in
+  [[u; w; w; u; u];
+   [u; w; w; u; u];
+   [w; w; w; w; w];
+   [w; w; w; w; w];
+   [u; w; w; u; u]].
+Proof. vm_compute. reflexivity. Qed.
+End FloatExample.
+
+(* ========================================================================================== *)
+(* D. which nodes a block / a loop body / a loop can modify (any medium, any parameters)         *)
+(* ========================================================================================== *)
+Section Frames.
+Variables (nz nx : Z).
+Notation St := (arr R * arr R * arr Z)%type.
+Definition ttof (s : St) : arr R := snd (fst s).
+
+(* `tt2` has the shape of `tt`, is well formed if `tt` is, and agrees with it outside the node set `Wr` *)
+Definition Frame (Wr : Z -> Z -> Prop) (tt tt2 : arr R) : Prop :=
+  shape tt2 = shape tt /\ (wf tt -> wf tt2) /\
+  forall a b, 0 <= a < nz -> 0 <= b < nx -> ~ Wr a b -> get 0%R tt2 [a; b] = get 0%R tt [a; b].
+
+Lemma Frame_refl Wr tt : Frame Wr tt tt.
+Proof. split; [reflexivity|]. split; auto. Qed.
+Lemma Frame_trans (W1 W2 : Z -> Z -> Prop) tt tt2 tt3 :
+  Frame W1 tt tt2 -> Frame W2 tt2 tt3 -> Frame (fun a b => W1 a b \/ W2 a b) tt tt3.
+Proof.
+  intros (S1 & F1 & G1) (S2 & F2 & G2). split; [congruence|]. split; [auto|].
+  intros a b Ha Hb N. rewrite G2, G1; auto.
+Qed.
+Lemma Frame_weaken (W1 W2 : Z -> Z -> Prop) tt tt2 :
+  Frame W1 tt tt2 -> (forall a b, 0 <= a < nz -> 0 <= b < nx -> W1 a b -> W2 a b) -> Frame W2 tt tt2.
+Proof. intros (S1 & F1 & G1) Hw. split; [exact S1|]. split; [exact F1|]. intros a b Ha Hb N. apply G1; auto. Qed.
+Lemma Frame_set tt i j (v : R) :
+  shape tt = [nz; nx] -> 0 <= i < nz -> 0 <= j < nx -> Frame (fun a b => a = i /\ b = j) tt (set tt [i; j] v).
+Proof.
+  intros S Hi Hj. split; [reflexivity|]. split; [apply wf_set|].
+  intros a b Ha Hb N. apply get_set_other; try (eapply inb2_true; eauto).
+  intros E. apply N. injection E as -> ->. auto.
+Qed.
+
+Lemma blk_x_frame (dx dz : R) grad (vzero xsa zsa dxi dx2i : R) row (dzw : R) sgz sgx jp j (vref tauv tauev : R) td tt sg :
+  shape tt = [nz; nx] -> 0 <= row < nz -> 0 <= j < nx ->
+  Frame (fun a b => a = row /\ b = j) tt
+    (fst (blk_x dx dz grad vzero xsa zsa dxi dx2i row dzw sgz sgx jp j vref tauv tauev td tt sg)).
+Proof.
+  intros S Hr Hj. unfold blk_x. cbv zeta.
+  match goal with |- context [if ?c then _ else _] => destruct c end; [|apply Frame_refl].
+  match goal with |- context [if ?c then _ else _] => destruct c end; cbn [fst]; [|apply Frame_refl].
+  apply Frame_set; assumption.
+Qed.
+Lemma blk_z_frame (dx dz : R) grad (vzero xsa zsa dzi dz2i : R) col (dxw : R) sgz sgx ip i (vref taue tauev : R) td tt sg :
+  shape tt = [nz; nx] -> 0 <= i < nz -> 0 <= col < nx ->
+  Frame (fun a b => a = i /\ b = col) tt
+    (fst (blk_z dx dz grad vzero xsa zsa dzi dz2i col dxw sgz sgx ip i vref taue tauev td tt sg)).
+Proof.
+  intros S Hr Hj. unfold blk_z. cbv zeta.
+  match goal with |- context [if ?c then _ else _] => destruct c end; [|apply Frame_refl].
+  match goal with |- context [if ?c then _ else _] => destruct c end; cbn [fst]; [|apply Frame_refl].
+  apply Frame_set; assumption.
+Qed.
+
+(* a loop modifies at most what its iterations modify *)
+Lemma for_list_frame (body : Z -> St -> St) (Wk : Z -> Z -> Z -> Prop) l :
+  forall st, shape (ttof st) = [nz; nx] ->
+  (forall k s, In k l -> shape (ttof s) = [nz; nx] -> Frame (Wk k) (ttof s) (ttof (body k s))) ->
+  Frame (fun a b => exists k, In k l /\ Wk k a b) (ttof st) (ttof (for_list l body st)).
+Proof.
+  induction l as [|k l IH]; intros st S Hb.
+  - cbn. apply Frame_refl.
+  - rewrite for_list_cons.
+    pose proof (Hb k st (or_introl eq_refl) S) as F1.
+    assert (S1 : shape (ttof (body k st)) = [nz; nx]) by (destruct F1 as (E & _); congruence).
+    pose proof (IH (body k st) S1 (fun k' s Hk => Hb k' s (or_intror Hk))) as F2.
+    eapply Frame_weaken; [exact (Frame_trans _ _ _ _ _ F1 F2)|].
+    intros a b _ _ [Y|(k' & Hk' & Y)]; [exists k; split; [left; reflexivity | exact Y] | exists k'; split; [right; exact Hk' | exact Y]].
+Qed.
+
+Variables (dx dz : R) (grad : bool) (slow : arr R) (vzero xsa zsa : R) (zsi xsi : Z).
+Hypothesis Hzsi : 0 <= zsi < nz - 1.
+Hypothesis Hxsi : 0 <= xsi < nx - 1.
+
+Definition OnRows (a : Z) : Prop := a = zsi + 1 \/ a = zsi.
+Definition OnCols (b : Z) : Prop := b = xsi + 1 \/ b = xsi.
+
+Lemma east_body_frame (dzu dzd dxi dx2i : R) k st :
+  shape (ttof st) = [nz; nx] -> 0 <= k < nx ->
+  Frame (fun a b => OnRows a /\ b = k) (ttof st)
+    (ttof (east_body dx dz grad slow vzero xsa zsa zsi dzu dzd dxi dx2i k st)).
+Proof.
+  intros S Hk. destruct st as [[td tt] sg]. unfold ttof in *. cbn [fst snd] in S.
+  cbv beta zeta delta [east_body]. cbn [fst snd].
+  match goal with |- Frame _ _ (fst (blk_x _ _ _ _ _ _ _ _ _ _ _ _ _ _ ?vr ?tv ?tev ?tdn (fst ?B1) (snd ?B1))) =>
+    pose proof (blk_x_frame dx dz grad vzero xsa zsa dxi dx2i (zsi + 1) dzd 1 1 (k - 1) k
+                  vr tv tev tdn tt sg S ltac:(lia) Hk) as F1;
+    set (b1 := B1) in * end.
+  assert (S1 : shape (fst b1) = [nz; nx]) by (destruct F1 as (E & _); congruence).
+  match goal with |- Frame _ _ (fst (blk_x _ _ _ _ _ _ _ _ _ _ _ _ _ _ ?vr ?tv ?tev ?tdn _ _)) =>
+    pose proof (blk_x_frame dx dz grad vzero xsa zsa dxi dx2i zsi dzu (-1) 1 (k - 1) k vr tv tev tdn (fst b1) (snd b1)
+                  S1 ltac:(lia) Hk) as F2 end.
+  eapply Frame_weaken; [exact (Frame_trans _ _ _ _ _ F1 F2)|].
+  intros a b _ _ [[-> ->]|[-> ->]]; (split; [unfold OnRows; auto | reflexivity]).
+Qed.
+Lemma west_body_frame (dzu dzd dxi dx2i : R) k st :
+  shape (ttof st) = [nz; nx] -> 0 <= k < nx ->
+  Frame (fun a b => OnRows a /\ b = k) (ttof st)
+    (ttof (west_body dx dz grad slow vzero xsa zsa zsi dzu dzd dxi dx2i k st)).
+Proof.
+  intros S Hk. destruct st as [[td tt] sg]. unfold ttof in *. cbn [fst snd] in S.
+  cbv beta zeta delta [west_body]. cbn [fst snd].
+  match goal with |- Frame _ _ (fst (blk_x _ _ _ _ _ _ _ _ _ _ _ _ _ _ ?vr ?tv ?tev ?tdn (fst ?B1) (snd ?B1))) =>
+    pose proof (blk_x_frame dx dz grad vzero xsa zsa dxi dx2i (zsi + 1) dzd 1 (-1) (k + 1) k
+                  vr tv tev tdn tt sg S ltac:(lia) Hk) as F1;
+    set (b1 := B1) in * end.
+  assert (S1 : shape (fst b1) = [nz; nx]) by (destruct F1 as (E & _); congruence).
+  match goal with |- Frame _ _ (fst (blk_x _ _ _ _ _ _ _ _ _ _ _ _ _ _ ?vr ?tv ?tev ?tdn _ _)) =>
+    pose proof (blk_x_frame dx dz grad vzero xsa zsa dxi dx2i zsi dzu (-1) (-1) (k + 1) k vr tv tev tdn (fst b1) (snd b1)
+                  S1 ltac:(lia) Hk) as F2 end.
+  eapply Frame_weaken; [exact (Frame_trans _ _ _ _ _ F1 F2)|].
+  intros a b _ _ [[-> ->]|[-> ->]]; (split; [unfold OnRows; auto | reflexivity]).
+Qed.
+Lemma down_body_frame (dxw dxe dzi dz2i : R) k st :
+  shape (ttof st) = [nz; nx] -> 0 <= k < nz ->
+  Frame (fun a b => a = k /\ OnCols b) (ttof st)
+    (ttof (down_body dx dz grad slow vzero xsa zsa xsi dxw dxe dzi dz2i k st)).
+Proof.
+  intros S Hk. destruct st as [[td tt] sg]. unfold ttof in *. cbn [fst snd] in S.
+  cbv beta zeta delta [down_body]. cbn [fst snd].
+  match goal with |- Frame _ _ (fst (blk_z _ _ _ _ _ _ _ _ _ _ _ _ _ _ ?vr ?tv ?tev ?tdn (fst ?B1) (snd ?B1))) =>
+    pose proof (blk_z_frame dx dz grad vzero xsa zsa dzi dz2i (xsi + 1) dxe 1 1 (k - 1) k
+                  vr tv tev tdn tt sg S Hk ltac:(lia)) as F1;
+    set (b1 := B1) in * end.
+  assert (S1 : shape (fst b1) = [nz; nx]) by (destruct F1 as (E & _); congruence).
+  match goal with |- Frame _ _ (fst (blk_z _ _ _ _ _ _ _ _ _ _ _ _ _ _ ?vr ?tv ?tev ?tdn _ _)) =>
+    pose proof (blk_z_frame dx dz grad vzero xsa zsa dzi dz2i xsi dxw 1 (-1) (k - 1) k vr tv tev tdn (fst b1) (snd b1)
+                  S1 Hk ltac:(lia)) as F2 end.
+  eapply Frame_weaken; [exact (Frame_trans _ _ _ _ _ F1 F2)|].
+  intros a b _ _ [[-> ->]|[-> ->]]; (split; [reflexivity | unfold OnCols; auto]).
+Qed.
+Lemma up_body_frame (dxw dxe dzi dz2i : R) k st :
+  shape (ttof st) = [nz; nx] -> 0 <= k < nz ->
+  Frame (fun a b => a = k /\ OnCols b) (ttof st)
+    (ttof (up_body dx dz grad slow vzero xsa zsa xsi dxw dxe dzi dz2i k st)).
+Proof.
+  intros S Hk. destruct st as [[td tt] sg]. unfold ttof in *. cbn [fst snd] in S.
+  cbv beta zeta delta [up_body]. cbn [fst snd].
+  match goal with |- Frame _ _ (fst (blk_z _ _ _ _ _ _ _ _ _ _ _ _ _ _ ?vr ?tv ?tev ?tdn (fst ?B1) (snd ?B1))) =>
+    pose proof (blk_z_frame dx dz grad vzero xsa zsa dzi dz2i (xsi + 1) dxe (-1) 1 (k + 1) k
+                  vr tv tev tdn tt sg S Hk ltac:(lia)) as F1;
+    set (b1 := B1) in * end.
+  assert (S1 : shape (fst b1) = [nz; nx]) by (destruct F1 as (E & _); congruence).
+  match goal with |- Frame _ _ (fst (blk_z _ _ _ _ _ _ _ _ _ _ _ _ _ _ ?vr ?tv ?tev ?tdn _ _)) =>
+    pose proof (blk_z_frame dx dz grad vzero xsa zsa dzi dz2i xsi dxw (-1) (-1) (k + 1) k vr tv tev tdn (fst b1) (snd b1)
+                  S1 Hk ltac:(lia)) as F2 end.
+  eapply Frame_weaken; [exact (Frame_trans _ _ _ _ _ F1 F2)|].
+  intros a b _ _ [[-> ->]|[-> ->]]; (split; [reflexivity | unfold OnCols; auto]).
+Qed.
+
+(* the four phases *)
+Lemma east_phase_frame (dzu dzd dxe : R) st :
+  shape (ttof st) = [nz; nx] ->
+  Frame (fun a b => OnRows a /\ xsi + 2 <= b) (ttof st)
+    (ttof (east_phase dx dz grad nx slow vzero xsa xsi zsa zsi dzu dzd dxe st)).
+Proof.
+  intros S. unfold east_phase. cbv zeta.
+  match goal with |- Frame _ _ (ttof (for_list ?l ?bd ?s)) =>
+    pose proof (for_list_frame bd (fun k a b => OnRows a /\ b = k) l s S) as F end.
+  eapply Frame_weaken; [apply F|].
+  - intros k s Hk Ss. apply in_pyrange_up in Hk. apply east_body_frame; [exact Ss | lia].
+  - intros a b _ _ (k & Hk & Ha & ->). apply in_pyrange_up in Hk. split; [exact Ha | lia].
+Qed.
+Lemma west_phase_frame (dzu dzd dxw : R) st :
+  shape (ttof st) = [nz; nx] ->
+  Frame (fun a b => OnRows a /\ b <= xsi - 1) (ttof st)
+    (ttof (west_phase dx dz grad slow vzero xsa xsi zsa zsi dzu dzd dxw st)).
+Proof.
+  intros S. unfold west_phase. cbv zeta.
+  match goal with |- Frame _ _ (ttof (for_list ?l ?bd ?s)) =>
+    pose proof (for_list_frame bd (fun k a b => OnRows a /\ b = k) l s S) as F end.
+  eapply Frame_weaken; [apply F|].
+  - intros k s Hk Ss. apply in_pyrange_down in Hk. apply west_body_frame; [exact Ss | lia].
+  - intros a b _ _ (k & Hk & Ha & ->). apply in_pyrange_down in Hk. split; [exact Ha | lia].
+Qed.
+Lemma down_phase_frame (dxw dxe dzd : R) st :
+  shape (ttof st) = [nz; nx] ->
+  Frame (fun a b => zsi + 2 <= a /\ OnCols b) (ttof st)
+    (ttof (down_phase dx dz grad nz slow vzero xsa xsi zsa zsi dxw dxe dzd st)).
+Proof.
+  intros S. unfold down_phase. cbv zeta.
+  match goal with |- Frame _ _ (ttof (for_list ?l ?bd ?s)) =>
+    pose proof (for_list_frame bd (fun k a b => a = k /\ OnCols b) l s S) as F end.
+  eapply Frame_weaken; [apply F|].
+  - intros k s Hk Ss. apply in_pyrange_up in Hk. apply down_body_frame; [exact Ss | lia].
+  - intros a b _ _ (k & Hk & -> & Hb). apply in_pyrange_up in Hk. split; [lia | exact Hb].
+Qed.
+Lemma up_phase_frame (dxw dxe dzu : R) st :
+  shape (ttof st) = [nz; nx] ->
+  Frame (fun a b => a <= zsi - 1 /\ OnCols b) (ttof st)
+    (ttof (up_phase dx dz grad slow vzero xsa xsi zsa zsi dxw dxe dzu st)).
+Proof.
+  intros S. unfold up_phase. cbv zeta.
+  match goal with |- Frame _ _ (ttof (for_list ?l ?bd ?s)) =>
+    pose proof (for_list_frame bd (fun k a b => a = k /\ OnCols b) l s S) as F end.
+  eapply Frame_weaken; [apply F|].
+  - intros k s Hk Ss. apply in_pyrange_down in Hk. apply up_body_frame; [exact Ss | lia].
+  - intros a b _ _ (k & Hk & -> & Hb). apply in_pyrange_down in Hk. split; [lia | exact Hb].
+Qed.
+End Frames.
+
+(* ========================================================================================== *)
+(* E. C05: the initialisation under a change of the slowness unit or of the length unit          *)
+(* ========================================================================================== *)
+(* the two unit changes: slowness (slow, vzero multiplied by c) and length (dz, dx multiplied by c; the source
+   position zsa, xsa is in grid units and does not change).  Both multiply every time by c. *)
+Inductive skind := Slowness | Length.
+Definition sc_v (k : skind) (c v : R) : R := match k with Slowness => (c * v)%R | Length => v end.
+Definition sc_h (k : skind) (c h : R) : R := match k with Slowness => h | Length => (c * h)%R end.
+Definition sc_i (k : skind) (c q : R) : R := match k with Slowness => q | Length => (q / c)%R end.
+Definition sc_i2 (k : skind) (c q : R) : R := match k with Slowness => q | Length => (q / (c * c))%R end.
+Definition sc_slow (k : skind) (c : R) (slow : arr R) : arr R := match k with Slowness => smap c slow | Length => slow end.
+
+Lemma get_sc_slow k c slow idx : get 0%R (sc_slow k c slow) idx = sc_v k c (get 0%R slow idx).
+Proof. destruct k; [apply get_smap | reflexivity]. Qed.
+Lemma sc_prod k (c h v : R) : (sc_h k c h * sc_v k c v = c * (h * v))%R.
+Proof. destruct k; cbn [sc_h sc_v]; ring. Qed.
+Lemma sc_prod3 k (c h v a : R) : (sc_v k c v * a * sc_h k c h = c * (v * a * h))%R.
+Proof. destruct k; cbn [sc_h sc_v]; ring. Qed.
+Lemma sc_inv k (c h : R) : (1 / sc_h k c h = sc_i k c (1 / h))%R.
+Proof. destruct k; cbn [sc_h sc_i]; [reflexivity|]. unfold Rdiv. rewrite Rinv_mult. ring. Qed.
+Lemma sc_inv2 k (c h : R) : (1 / sc_h k c h / sc_h k c h = sc_i2 k c (1 / h / h))%R.
+Proof. destruct k; cbn [sc_h sc_i2]; [reflexivity|]. unfold Rdiv. rewrite !Rinv_mult. ring. Qed.
+
+(* the value a block computes for its node: x = tt[previous node], y = tt[node] *)
+Definition tnew_x (dx dz vzero xsa zsa dxi dx2i : R) (row : Z) (dzw : R) (sgz sgx jp j : Z) (vref tauv tauev x y : R) : R :=
+  delta y tauv (x - t_ana row jp dz dx zsa xsa vzero)%R tauev
+    (fst (fst (t_anad row j dz dx zsa xsa vzero))) (snd (fst (t_anad row j dz dx zsa xsa vzero)))
+    (snd (t_anad row j dz dx zsa xsa vzero))
+    (1 / (dzw * dz))%R dxi (1 / (dzw * dz) / (dzw * dz))%R dx2i vzero vref sgz sgx.
+Definition tnew_z (dx dz vzero xsa zsa dzi dz2i : R) (col : Z) (dxw : R) (sgz sgx ip i : Z) (vref taue tauev x y : R) : R :=
+  delta y (x - t_ana ip col dz dx zsa xsa vzero)%R taue tauev
+    (fst (fst (t_anad i col dz dx zsa xsa vzero))) (snd (fst (t_anad i col dz dx zsa xsa vzero)))
+    (snd (t_anad i col dz dx zsa xsa vzero))
+    dzi (1 / (dxw * dx))%R dz2i (1 / (dxw * dx) / (dxw * dx))%R vzero vref sgz sgx.
+(* ... and what the block does with it: w = fractional distance, tdj = the 1D time along the source line *)
+Definition blk_res (w x tdj tnew : R) (tt : arr R) (a b : Z) : arr R :=
+  if Rltb 0 w && Rltb x Big then (if Rleb x tnew && Rleb tdj tnew then set tt [a; b] tnew else tt) else tt.
+
+Lemma blk_x_res (dx dz : R) grad (vzero xsa zsa dxi dx2i : R) row (dzw : R) sgz sgx jp j (vref tauv tauev : R) td tt sg :
+  fst (blk_x dx dz grad vzero xsa zsa dxi dx2i row dzw sgz sgx jp j vref tauv tauev td tt sg) =
+  blk_res dzw (get 0%R tt [row; jp]) (get 0%R td [j])
+    (tnew_x dx dz vzero xsa zsa dxi dx2i row dzw sgz sgx jp j vref tauv tauev (get 0%R tt [row; jp]) (get 0%R tt [row; j]))
+    tt row j.
+Proof.
+  unfold blk_x, blk_res, tnew_x. cbv zeta. unfold ngtb, ngeb. change (@nofZ R NumR 0) with 0%R.
+  change (@nofZ R NumR 1) with 1%R. numR'.
+  destruct (Rltb 0 dzw && Rltb (get 0%R tt [row; jp]) Big); [|reflexivity].
+  cbn [fst snd]. match goal with |- fst (if ?g then _ else _) = _ => destruct g end; reflexivity.
+Qed.
+Lemma blk_z_res (dx dz : R) grad (vzero xsa zsa dzi dz2i : R) col (dxw : R) sgz sgx ip i (vref taue tauev : R) td tt sg :
+  fst (blk_z dx dz grad vzero xsa zsa dzi dz2i col dxw sgz sgx ip i vref taue tauev td tt sg) =
+  blk_res dxw (get 0%R tt [ip; col]) (get 0%R td [i])
+    (tnew_z dx dz vzero xsa zsa dzi dz2i col dxw sgz sgx ip i vref taue tauev (get 0%R tt [ip; col]) (get 0%R tt [i; col]))
+    tt i col.
+Proof.
+  unfold blk_z, blk_res, tnew_z. cbv zeta. unfold ngtb, ngeb. change (@nofZ R NumR 0) with 0%R.
+  change (@nofZ R NumR 1) with 1%R. numR'.
+  destruct (Rltb 0 dxw && Rltb (get 0%R tt [ip; col]) Big); [|reflexivity].
+  cbn [fst snd]. match goal with |- fst (if ?g then _ else _) = _ => destruct g end; reflexivity.
+Qed.
+
+(* a z-block value is an x-block value of the transposed problem *)
+Lemma tnew_z_as_x (dx dz vzero xsa zsa dzi dz2i : R) col (dxw : R) sgz sgx ip i (vref taue tauev x y : R) :
+  tnew_z dx dz vzero xsa zsa dzi dz2i col dxw sgz sgx ip i vref taue tauev x y =
+  tnew_x dz dx vzero zsa xsa dzi dz2i col dxw sgx sgz ip i vref taue tauev x y.
+Proof.
+  unfold tnew_z, tnew_x. rewrite (t_ana_swap ip col), (t_anad_swap i col).
+  destruct (t_anad col i dx dz xsa zsa vzero) as [[t0c a1] a2]. cbn [fst snd]. apply delta_swap.
+Qed.
+
+Section Scale.
+Variables (nz nx : Z) (c : R) (k : skind).
+Hypothesis Hc : (0 < c)%R.
+Notation St := (arr R * arr R * arr Z)%type.
+
+(* the value computed by a block scales, or is the fall-back value (the old content of the node) on both sides *)
+Lemma tnew_x_scale (dx dz vzero xsa zsa dxi dx2i : R) row (dzw : R) sgz sgx jp j (vref tauv tauev x y y' : R) :
+  let tn := tnew_x dx dz vzero xsa zsa dxi dx2i row dzw sgz sgx jp j vref tauv tauev x y in
+  let tn' := tnew_x (sc_h k c dx) (sc_h k c dz) (sc_v k c vzero) xsa zsa (sc_i k c dxi) (sc_i2 k c dx2i) row dzw
+               sgz sgx jp j (sc_v k c vref) (c * tauv) (c * tauev) (c * x) y' in
+  tn' = (c * tn)%R \/ (tn = y /\ tn' = y').
+Proof.
+  intros tn tn'. subst tn tn'. unfold tnew_x. destruct k; cbn [sc_h sc_v sc_i sc_i2].
+  - rewrite t_ana_scale_slowness, t_anad_scale_slowness by exact Hc.
+    destruct (t_anad row j dz dx zsa xsa vzero) as [[t0c tzc] txc]. cbn [fst snd]. rewrite lin3.
+    rewrite (delta_scale_slowness_gen c y y') by exact Hc.
+    destruct (Rle_dec _ _) as [P|N]; [left; reflexivity|].
+    right. split; [|reflexivity]. rewrite delta_eq. destruct (Rle_dec _ _); [contradiction|reflexivity].
+  - rewrite t_ana_scale_length, t_anad_scale_length by lra.
+    destruct (t_anad row j dz dx zsa xsa vzero) as [[t0c tzc] txc]. cbn [fst snd]. rewrite lin3.
+    replace (1 / (dzw * (c * dz)))%R with (1 / (dzw * dz) / c)%R by (unfold Rdiv; rewrite !Rinv_mult; ring).
+    replace (1 / (dzw * dz) / c / (dzw * (c * dz)))%R with (1 / (dzw * dz) / (dzw * dz) / (c * c))%R
+      by (unfold Rdiv; rewrite !Rinv_mult; ring).
+    rewrite (delta_scale_length_gen c y y') by exact Hc.
+    destruct (Rle_dec _ _) as [P|N]; [left; reflexivity|].
+    right. split; [|reflexivity]. rewrite delta_eq. destruct (Rle_dec _ _); [contradiction|reflexivity].
+Qed.
+Lemma tnew_z_scale (dx dz vzero xsa zsa dzi dz2i : R) col (dxw : R) sgz sgx ip i (vref taue tauev x y y' : R) :
+  let tn := tnew_z dx dz vzero xsa zsa dzi dz2i col dxw sgz sgx ip i vref taue tauev x y in
+  let tn' := tnew_z (sc_h k c dx) (sc_h k c dz) (sc_v k c vzero) xsa zsa (sc_i k c dzi) (sc_i2 k c dz2i) col dxw
+               sgz sgx ip i (sc_v k c vref) (c * taue) (c * tauev) (c * x) y' in
+  tn' = (c * tn)%R \/ (tn = y /\ tn' = y').
+Proof. cbv zeta. rewrite !tnew_z_as_x. apply tnew_x_scale. Qed.
+
+(* the relation between the two grids: entry by entry, multiplied by c or Big on both sides *)
+Definition TRel (tt tt' : arr R) : Prop :=
+  wf tt /\ wf tt' /\ shape tt = [nz; nx] /\ shape tt' = [nz; nx] /\
+  forall i j, 0 <= i < nz -> 0 <= j < nx -> t2rel c (get 0%R tt [i; j]) (get 0%R tt' [i; j]).
+
+Lemma TRel_get tt tt' i j : TRel tt tt' -> 0 <= i < nz -> 0 <= j < nx -> t2rel c (get 0%R tt [i; j]) (get 0%R tt' [i; j]).
+Proof. intros (_ & _ & _ & _ & G). apply G. Qed.
+Lemma TRel_set tt tt' i j (v v' : R) :
+  TRel tt tt' -> 0 <= i < nz -> 0 <= j < nx -> t2rel c v v' -> TRel (set tt [i; j] v) (set tt' [i; j] v').
+Proof.
+  intros (W & W' & S & S' & G) Hi Hj Hv.
+  split; [apply wf_set, W|]. split; [apply wf_set, W'|]. split; [exact S|]. split; [exact S'|].
+  intros a b Ha Hb. destruct (list_eq_dec_Z [i; j] [a; b]) as [E|N].
+  - injection E as <- <-. rewrite !get_set_same; auto; eapply inb2_true; eauto.
+  - rewrite !get_set_other; auto; eapply inb2_true; eauto.
+Qed.
+(* writing back the value a node already has changes nothing *)
+Lemma get_set_self (tt : arr R) i j a b :
+  wf tt -> shape tt = [nz; nx] -> 0 <= i < nz -> 0 <= j < nx -> 0 <= a < nz -> 0 <= b < nx ->
+  get 0%R (set tt [i; j] (get 0%R tt [i; j])) [a; b] = get 0%R tt [a; b].
+Proof.
+  intros W S Hi Hj Ha Hb. destruct (list_eq_dec_Z [i; j] [a; b]) as [E|N].
+  - injection E as <- <-. apply get_set_same; [exact W | eapply inb2_true; eauto].
+  - apply get_set_other; auto; eapply inb2_true; eauto.
+Qed.
+Lemma TRel_self_l tt tt' i j :
+  TRel tt tt' -> 0 <= i < nz -> 0 <= j < nx -> TRel (set tt [i; j] (get 0%R tt [i; j])) tt'.
+Proof.
+  intros (W & W' & S & S' & G) Hi Hj.
+  split; [apply wf_set, W|]. split; [exact W'|]. split; [exact S|]. split; [exact S'|].
+  intros a b Ha Hb. rewrite get_set_self; auto.
+Qed.
+Lemma TRel_self_r tt tt' i j :
+  TRel tt tt' -> 0 <= i < nz -> 0 <= j < nx -> TRel tt (set tt' [i; j] (get 0%R tt' [i; j])).
+Proof.
+  intros (W & W' & S & S' & G) Hi Hj.
+  split; [exact W|]. split; [apply wf_set, W'|]. split; [exact S|]. split; [exact S'|].
+  intros a b Ha Hb. rewrite get_set_self; auto.
+Qed.
+
+Lemma blk_res_sim (w x x' tdj tdj' tnew tnew' : R) tt tt' a b :
+  TRel tt tt' -> 0 <= a < nz -> 0 <= b < nx ->
+  t2rel c x x' -> ((x < Big)%R <-> (x' < Big)%R) -> tdj' = (c * tdj)%R ->
+  (x' = (c * x)%R -> tnew' = (c * tnew)%R \/ (tnew = get 0%R tt [a; b] /\ tnew' = get 0%R tt' [a; b])) ->
+  TRel (blk_res w x tdj tnew tt a b) (blk_res w x' tdj' tnew' tt' a b).
+Proof.
+  intros HR Ha Hb Hx Hiff Htd Htn. unfold blk_res.
+  destruct (Rltb 0 w); cbn [andb]; [|exact HR].
+  rewrite (Rltb_ext x' Big x Big) by tauto.
+  destruct (Rltb x Big) eqn:E2; [|exact HR]. apply Rltb_true in E2.
+  destruct Hx as [Ex|[Ex _]]; [|rewrite Ex in E2; lra].
+  destruct (Htn Ex) as [Et|[Et Et']].
+  - rewrite Et, Ex, Htd, !Rleb_scale by exact Hc.
+    destruct (Rleb x tnew && Rleb tdj tnew); [|exact HR]. apply TRel_set; auto. left. reflexivity.
+  - rewrite Et, Et'.
+    destruct (Rleb x _ && Rleb tdj _), (Rleb x' _ && Rleb tdj' _).
+    + apply TRel_set; auto. apply TRel_get; auto.
+    + apply TRel_self_l; auto.
+    + apply TRel_self_r; auto.
+    + exact HR.
+Qed.
+
+Lemma blk_x_sim (dx dz : R) grad grad' (vzero xsa zsa dxi dx2i : R) row (dzw : R) sgz sgx jp j (vref tauv tauev : R)
+      td td' tt tt' sg sg' :
+  TRel tt tt' -> 0 <= row < nz -> 0 <= j < nx -> 0 <= jp < nx ->
+  get 0%R td' [j] = (c * get 0%R td [j])%R ->
+  ((get 0%R tt [row; jp] < Big)%R <-> (get 0%R tt' [row; jp] < Big)%R) ->
+  TRel (fst (blk_x dx dz grad vzero xsa zsa dxi dx2i row dzw sgz sgx jp j vref tauv tauev td tt sg))
+       (fst (blk_x (sc_h k c dx) (sc_h k c dz) grad' (sc_v k c vzero) xsa zsa (sc_i k c dxi) (sc_i2 k c dx2i) row dzw
+                   sgz sgx jp j (sc_v k c vref) (c * tauv)%R (c * tauev)%R td' tt' sg')).
+Proof.
+  intros HR Hr Hj Hjp Htd Hiff. rewrite !blk_x_res.
+  apply blk_res_sim; auto.
+  - apply TRel_get; auto.
+  - intros Ex. rewrite Ex. apply tnew_x_scale.
+Qed.
+Lemma blk_z_sim (dx dz : R) grad grad' (vzero xsa zsa dzi dz2i : R) col (dxw : R) sgz sgx ip i (vref taue tauev : R)
+      td td' tt tt' sg sg' :
+  TRel tt tt' -> 0 <= col < nx -> 0 <= i < nz -> 0 <= ip < nz ->
+  get 0%R td' [i] = (c * get 0%R td [i])%R ->
+  ((get 0%R tt [ip; col] < Big)%R <-> (get 0%R tt' [ip; col] < Big)%R) ->
+  TRel (fst (blk_z dx dz grad vzero xsa zsa dzi dz2i col dxw sgz sgx ip i vref taue tauev td tt sg))
+       (fst (blk_z (sc_h k c dx) (sc_h k c dz) grad' (sc_v k c vzero) xsa zsa (sc_i k c dzi) (sc_i2 k c dz2i) col dxw
+                   sgz sgx ip i (sc_v k c vref) (c * taue)%R (c * tauev)%R td' tt' sg')).
+Proof.
+  intros HR Hr Hj Hjp Htd Hiff. rewrite !blk_z_res.
+  apply blk_res_sim; auto.
+  - apply TRel_get; auto.
+  - intros Ex. rewrite Ex. apply tnew_z_scale.
+Qed.
+
+(* ---------- loop bodies ---------- *)
+Variables (dx dz : R) (grad grad' : bool) (slow : arr R) (vzero xsa zsa : R) (zsi xsi M : Z).
+Hypothesis Hzsi : 0 <= zsi < nz - 1.
+Hypothesis Hxsi : 0 <= xsi < nx - 1.
+Hypothesis HM : nx <= M /\ nz <= M.
+
+(* states of the two runs: the grids are related, and so is the entry `p` of the scratch line (the last one written) *)
+Definition SimS (p : Z) (st st' : St) : Prop :=
+  wf (fst (fst st)) /\ wf (fst (fst st')) /\ shape (fst (fst st)) = [M] /\ shape (fst (fst st')) = [M] /\
+  get 0%R (fst (fst st')) [p] = (c * get 0%R (fst (fst st)) [p])%R /\
+  TRel (ttof st) (ttof st').
+
+(* the same test `< Big` succeeds on both sides *)
+Definition BelowIff (tt tt' : arr R) (a b : Z) : Prop :=
+  (get 0%R tt [a; b] < Big)%R <-> (get 0%R tt' [a; b] < Big)%R.
+
+Lemma frame_get (Wr : Z -> Z -> Prop) tt tt2 a b :
+  Frame nz nx Wr tt tt2 -> 0 <= a < nz -> 0 <= b < nx -> ~ Wr a b -> get 0%R tt2 [a; b] = get 0%R tt [a; b].
+Proof. intros (_ & _ & G). apply G. Qed.
+
+Lemma east_body_sim (dzu dzd dxi dx2i : R) j st st' :
+  SimS (j - 1) st st' -> 1 <= j < nx ->
+  BelowIff (ttof st) (ttof st') (zsi + 1) (j - 1) -> BelowIff (ttof st) (ttof st') zsi (j - 1) ->
+  SimS j (east_body dx dz grad slow vzero xsa zsa zsi dzu dzd dxi dx2i j st)
+         (east_body (sc_h k c dx) (sc_h k c dz) grad' (sc_slow k c slow) (sc_v k c vzero) xsa zsa zsi dzu dzd
+                    (sc_i k c dxi) (sc_i2 k c dx2i) j st').
+Proof.
+  destruct st as [[td tt] sg], st' as [[td' tt'] sg']. unfold SimS, ttof. cbn [fst snd].
+  intros (W & W' & S & S' & Htd & HR) Hj B1 B2.
+  cbv beta zeta delta [east_body]. cbn [fst snd]. change (@nofZ R NumR 0) with 0%R.
+  rewrite get_sc_slow. set (vref := get 0%R slow [zsi; j - 1]). rewrite Htd.
+  set (v := nadd (get 0%R td [j - 1]) (nmul dx vref)).
+  set (v' := nadd (c * get 0%R td [(j - 1)%Z])%R (nmul (sc_h k c dx) (sc_v k c vref))).
+  assert (Ev : v' = (c * v)%R) by (unfold v', v; numR'; rewrite sc_prod; ring).
+  rewrite (get1_set_same td M j v W S ltac:(lia)), (get1_set_same td' M j v' W' S' ltac:(lia)).
+  rewrite (get1_set_other td M j (j - 1) v S ltac:(lia) ltac:(lia) ltac:(lia)).
+  rewrite (get1_set_other td' M j (j - 1) v' S' ltac:(lia) ltac:(lia) ltac:(lia)). rewrite Htd.
+  set (tauv := nsub v _). set (tauev := nsub (get 0%R td [j - 1]) _).
+  match goal with |- context [blk_x (sc_h k c dx) _ _ _ _ _ _ _ _ _ _ _ _ _ _ ?tv' ?tev' _ _ _] =>
+    replace tv' with (c * tauv)%R by (unfold tauv; rewrite Ev; numR'; rewrite sc_prod3; ring);
+    replace tev' with (c * tauev)%R by (unfold tauev; numR'; rewrite sc_prod3; ring) end.
+  set (tdn := set td [j] v). set (tdn' := set td' [j] v').
+  assert (Htdn : get 0%R tdn' [j] = (c * get 0%R tdn [j])%R).
+  { unfold tdn, tdn'. rewrite (get1_set_same td M j v W S ltac:(lia)), (get1_set_same td' M j v' W' S' ltac:(lia)). exact Ev. }
+  assert (St : shape tt = [nz; nx]) by (destruct HR as (_ & _ & E & _); exact E).
+  assert (St' : shape tt' = [nz; nx]) by (destruct HR as (_ & _ & _ & E & _); exact E).
+  pose proof (blk_x_sim dx dz grad grad' vzero xsa zsa dxi dx2i (zsi + 1) dzd 1 1 (j - 1) j vref tauv tauev
+                tdn tdn' tt tt' sg sg' HR ltac:(lia) ltac:(lia) ltac:(lia) Htdn B1) as R1.
+  pose proof (blk_x_frame nz nx dx dz grad vzero xsa zsa dxi dx2i (zsi + 1) dzd 1 1 (j - 1) j vref tauv tauev
+                tdn tt sg St ltac:(lia) ltac:(lia)) as F1.
+  pose proof (blk_x_frame nz nx (sc_h k c dx) (sc_h k c dz) grad' (sc_v k c vzero) xsa zsa (sc_i k c dxi) (sc_i2 k c dx2i)
+                (zsi + 1) dzd 1 1 (j - 1) j (sc_v k c vref) (c * tauv)%R (c * tauev)%R
+                tdn' tt' sg' St' ltac:(lia) ltac:(lia)) as F1'.
+  match type of R1 with TRel (fst ?b) (fst ?b') => set (B1v := b) in *; set (B1v' := b') in * end.
+  assert (B2' : BelowIff (fst B1v) (fst B1v') zsi (j - 1)).
+  { unfold BelowIff. rewrite (frame_get _ _ _ zsi (j - 1) F1), (frame_get _ _ _ zsi (j - 1) F1') by lia. exact B2. }
+  pose proof (blk_x_sim dx dz grad grad' vzero xsa zsa dxi dx2i zsi dzu (-1) 1 (j - 1) j vref tauv tauev
+                tdn tdn' (fst B1v) (fst B1v') (snd B1v) (snd B1v') R1 ltac:(lia) ltac:(lia) ltac:(lia) Htdn B2') as R2.
+  split; [apply wf_set, W|]. split; [apply wf_set, W'|]. split; [exact S|]. split; [exact S'|].
+  split; [first [exact Htdn | exact Ev] | exact R2].
+Qed.
+
+Lemma west_body_sim (dzu dzd dxi dx2i : R) j st st' :
+  SimS (j + 1) st st' -> 0 <= j < nx - 1 ->
+  BelowIff (ttof st) (ttof st') (zsi + 1) (j + 1) -> BelowIff (ttof st) (ttof st') zsi (j + 1) ->
+  SimS j (west_body dx dz grad slow vzero xsa zsa zsi dzu dzd dxi dx2i j st)
+         (west_body (sc_h k c dx) (sc_h k c dz) grad' (sc_slow k c slow) (sc_v k c vzero) xsa zsa zsi dzu dzd
+                    (sc_i k c dxi) (sc_i2 k c dx2i) j st').
+Proof.
+  destruct st as [[td tt] sg], st' as [[td' tt'] sg']. unfold SimS, ttof. cbn [fst snd].
+  intros (W & W' & S & S' & Htd & HR) Hj B1 B2.
+  cbv beta zeta delta [west_body]. cbn [fst snd]. change (@nofZ R NumR 0) with 0%R.
+  rewrite get_sc_slow. set (vref := get 0%R slow [zsi; j]). rewrite Htd.
+  set (v := nadd (get 0%R td [j + 1]) (nmul dx vref)).
+  set (v' := nadd (c * get 0%R td [(j + 1)%Z])%R (nmul (sc_h k c dx) (sc_v k c vref))).
+  assert (Ev : v' = (c * v)%R) by (unfold v', v; numR'; rewrite sc_prod; ring).
+  rewrite (get1_set_same td M j v W S ltac:(lia)), (get1_set_same td' M j v' W' S' ltac:(lia)).
+  rewrite (get1_set_other td M j (j + 1) v S ltac:(lia) ltac:(lia) ltac:(lia)).
+  rewrite (get1_set_other td' M j (j + 1) v' S' ltac:(lia) ltac:(lia) ltac:(lia)). rewrite Htd.
+  set (tauv := nsub v _). set (tauev := nsub (get 0%R td [j + 1]) _).
+  match goal with |- context [blk_x (sc_h k c dx) _ _ _ _ _ _ _ _ _ _ _ _ _ _ ?tv' ?tev' _ _ _] =>
+    replace tv' with (c * tauv)%R by (unfold tauv; rewrite Ev; numR'; rewrite sc_prod3; ring);
+    replace tev' with (c * tauev)%R by (unfold tauev; numR'; rewrite sc_prod3; ring) end.
+  set (tdn := set td [j] v). set (tdn' := set td' [j] v').
+  assert (Htdn : get 0%R tdn' [j] = (c * get 0%R tdn [j])%R).
+  { unfold tdn, tdn'. rewrite (get1_set_same td M j v W S ltac:(lia)), (get1_set_same td' M j v' W' S' ltac:(lia)). exact Ev. }
+  assert (St : shape tt = [nz; nx]) by (destruct HR as (_ & _ & E & _); exact E).
+  assert (St' : shape tt' = [nz; nx]) by (destruct HR as (_ & _ & _ & E & _); exact E).
+  pose proof (blk_x_sim dx dz grad grad' vzero xsa zsa dxi dx2i (zsi + 1) dzd 1 (-1) (j + 1) j vref tauv tauev
+                tdn tdn' tt tt' sg sg' HR ltac:(lia) ltac:(lia) ltac:(lia) Htdn B1) as R1.
+  pose proof (blk_x_frame nz nx dx dz grad vzero xsa zsa dxi dx2i (zsi + 1) dzd 1 (-1) (j + 1) j vref tauv tauev
+                tdn tt sg St ltac:(lia) ltac:(lia)) as F1.
+  pose proof (blk_x_frame nz nx (sc_h k c dx) (sc_h k c dz) grad' (sc_v k c vzero) xsa zsa (sc_i k c dxi) (sc_i2 k c dx2i)
+                (zsi + 1) dzd 1 (-1) (j + 1) j (sc_v k c vref) (c * tauv)%R (c * tauev)%R
+                tdn' tt' sg' St' ltac:(lia) ltac:(lia)) as F1'.
+  match type of R1 with TRel (fst ?b) (fst ?b') => set (B1v := b) in *; set (B1v' := b') in * end.
+  assert (B2' : BelowIff (fst B1v) (fst B1v') zsi (j + 1)).
+  { unfold BelowIff. rewrite (frame_get _ _ _ zsi (j + 1) F1), (frame_get _ _ _ zsi (j + 1) F1') by lia. exact B2. }
+  pose proof (blk_x_sim dx dz grad grad' vzero xsa zsa dxi dx2i zsi dzu (-1) (-1) (j + 1) j vref tauv tauev
+                tdn tdn' (fst B1v) (fst B1v') (snd B1v) (snd B1v') R1 ltac:(lia) ltac:(lia) ltac:(lia) Htdn B2') as R2.
+  split; [apply wf_set, W|]. split; [apply wf_set, W'|]. split; [exact S|]. split; [exact S'|].
+  split; [first [exact Htdn | exact Ev] | exact R2].
+Qed.
+
+Lemma down_body_sim (dxw dxe dzi dz2i : R) i st st' :
+  SimS (i - 1) st st' -> 1 <= i < nz ->
+  BelowIff (ttof st) (ttof st') (i - 1) (xsi + 1) -> BelowIff (ttof st) (ttof st') (i - 1) xsi ->
+  SimS i (down_body dx dz grad slow vzero xsa zsa xsi dxw dxe dzi dz2i i st)
+         (down_body (sc_h k c dx) (sc_h k c dz) grad' (sc_slow k c slow) (sc_v k c vzero) xsa zsa xsi dxw dxe
+                    (sc_i k c dzi) (sc_i2 k c dz2i) i st').
+Proof.
+  destruct st as [[td tt] sg], st' as [[td' tt'] sg']. unfold SimS, ttof. cbn [fst snd].
+  intros (W & W' & S & S' & Htd & HR) Hi B1 B2.
+  cbv beta zeta delta [down_body]. cbn [fst snd]. change (@nofZ R NumR 0) with 0%R.
+  rewrite get_sc_slow. set (vref := get 0%R slow [i - 1; xsi]). rewrite Htd.
+  set (v := nadd (get 0%R td [i - 1]) (nmul dz vref)).
+  set (v' := nadd (c * get 0%R td [(i - 1)%Z])%R (nmul (sc_h k c dz) (sc_v k c vref))).
+  assert (Ev : v' = (c * v)%R) by (unfold v', v; numR'; rewrite sc_prod; ring).
+  rewrite (get1_set_same td M i v W S ltac:(lia)), (get1_set_same td' M i v' W' S' ltac:(lia)).
+  rewrite (get1_set_other td M i (i - 1) v S ltac:(lia) ltac:(lia) ltac:(lia)).
+  rewrite (get1_set_other td' M i (i - 1) v' S' ltac:(lia) ltac:(lia) ltac:(lia)). rewrite Htd.
+  set (taue := nsub v _). set (tauev := nsub (get 0%R td [i - 1]) _).
+  match goal with |- context [blk_z (sc_h k c dx) _ _ _ _ _ _ _ _ _ _ _ _ _ _ ?te' ?tev' _ _ _] =>
+    replace te' with (c * taue)%R by (unfold taue; rewrite Ev; numR'; rewrite sc_prod3; ring);
+    replace tev' with (c * tauev)%R by (unfold tauev; numR'; rewrite sc_prod3; ring) end.
+  set (tdn := set td [i] v). set (tdn' := set td' [i] v').
+  assert (Htdn : get 0%R tdn' [i] = (c * get 0%R tdn [i])%R).
+  { unfold tdn, tdn'. rewrite (get1_set_same td M i v W S ltac:(lia)), (get1_set_same td' M i v' W' S' ltac:(lia)). exact Ev. }
+  assert (St : shape tt = [nz; nx]) by (destruct HR as (_ & _ & E & _); exact E).
+  assert (St' : shape tt' = [nz; nx]) by (destruct HR as (_ & _ & _ & E & _); exact E).
+  pose proof (blk_z_sim dx dz grad grad' vzero xsa zsa dzi dz2i (xsi + 1) dxe 1 1 (i - 1) i vref taue tauev
+                tdn tdn' tt tt' sg sg' HR ltac:(lia) ltac:(lia) ltac:(lia) Htdn B1) as R1.
+  pose proof (blk_z_frame nz nx dx dz grad vzero xsa zsa dzi dz2i (xsi + 1) dxe 1 1 (i - 1) i vref taue tauev
+                tdn tt sg St ltac:(lia) ltac:(lia)) as F1.
+  pose proof (blk_z_frame nz nx (sc_h k c dx) (sc_h k c dz) grad' (sc_v k c vzero) xsa zsa (sc_i k c dzi) (sc_i2 k c dz2i)
+                (xsi + 1) dxe 1 1 (i - 1) i (sc_v k c vref) (c * taue)%R (c * tauev)%R
+                tdn' tt' sg' St' ltac:(lia) ltac:(lia)) as F1'.
+  match type of R1 with TRel (fst ?b) (fst ?b') => set (B1v := b) in *; set (B1v' := b') in * end.
+  assert (B2' : BelowIff (fst B1v) (fst B1v') (i - 1) xsi).
+  { unfold BelowIff. rewrite (frame_get _ _ _ (i - 1) xsi F1), (frame_get _ _ _ (i - 1) xsi F1') by lia. exact B2. }
+  pose proof (blk_z_sim dx dz grad grad' vzero xsa zsa dzi dz2i xsi dxw 1 (-1) (i - 1) i vref taue tauev
+                tdn tdn' (fst B1v) (fst B1v') (snd B1v) (snd B1v') R1 ltac:(lia) ltac:(lia) ltac:(lia) Htdn B2') as R2.
+  split; [apply wf_set, W|]. split; [apply wf_set, W'|]. split; [exact S|]. split; [exact S'|].
+  split; [first [exact Htdn | exact Ev] | exact R2].
+Qed.
+
+Lemma up_body_sim (dxw dxe dzi dz2i : R) i st st' :
+  SimS (i + 1) st st' -> 0 <= i < nz - 1 ->
+  BelowIff (ttof st) (ttof st') (i + 1) (xsi + 1) -> BelowIff (ttof st) (ttof st') (i + 1) xsi ->
+  SimS i (up_body dx dz grad slow vzero xsa zsa xsi dxw dxe dzi dz2i i st)
+         (up_body (sc_h k c dx) (sc_h k c dz) grad' (sc_slow k c slow) (sc_v k c vzero) xsa zsa xsi dxw dxe
+                  (sc_i k c dzi) (sc_i2 k c dz2i) i st').
+Proof.
+  destruct st as [[td tt] sg], st' as [[td' tt'] sg']. unfold SimS, ttof. cbn [fst snd].
+  intros (W & W' & S & S' & Htd & HR) Hi B1 B2.
+  cbv beta zeta delta [up_body]. cbn [fst snd]. change (@nofZ R NumR 0) with 0%R.
+  rewrite get_sc_slow. set (vref := get 0%R slow [i; xsi]). rewrite Htd.
+  set (v := nadd (get 0%R td [i + 1]) (nmul dz vref)).
+  set (v' := nadd (c * get 0%R td [(i + 1)%Z])%R (nmul (sc_h k c dz) (sc_v k c vref))).
+  assert (Ev : v' = (c * v)%R) by (unfold v', v; numR'; rewrite sc_prod; ring).
+  rewrite (get1_set_same td M i v W S ltac:(lia)), (get1_set_same td' M i v' W' S' ltac:(lia)).
+  rewrite (get1_set_other td M i (i + 1) v S ltac:(lia) ltac:(lia) ltac:(lia)).
+  rewrite (get1_set_other td' M i (i + 1) v' S' ltac:(lia) ltac:(lia) ltac:(lia)). rewrite Htd.
+  set (taue := nsub v _). set (tauev := nsub (get 0%R td [i + 1]) _).
+  match goal with |- context [blk_z (sc_h k c dx) _ _ _ _ _ _ _ _ _ _ _ _ _ _ ?te' ?tev' _ _ _] =>
+    replace te' with (c * taue)%R by (unfold taue; rewrite Ev; numR'; rewrite sc_prod3; ring);
+    replace tev' with (c * tauev)%R by (unfold tauev; numR'; rewrite sc_prod3; ring) end.
+  set (tdn := set td [i] v). set (tdn' := set td' [i] v').
+  assert (Htdn : get 0%R tdn' [i] = (c * get 0%R tdn [i])%R).
+  { unfold tdn, tdn'. rewrite (get1_set_same td M i v W S ltac:(lia)), (get1_set_same td' M i v' W' S' ltac:(lia)). exact Ev. }
+  assert (St : shape tt = [nz; nx]) by (destruct HR as (_ & _ & E & _); exact E).
+  assert (St' : shape tt' = [nz; nx]) by (destruct HR as (_ & _ & _ & E & _); exact E).
+  pose proof (blk_z_sim dx dz grad grad' vzero xsa zsa dzi dz2i (xsi + 1) dxe (-1) 1 (i + 1) i vref taue tauev
+                tdn tdn' tt tt' sg sg' HR ltac:(lia) ltac:(lia) ltac:(lia) Htdn B1) as R1.
+  pose proof (blk_z_frame nz nx dx dz grad vzero xsa zsa dzi dz2i (xsi + 1) dxe (-1) 1 (i + 1) i vref taue tauev
+                tdn tt sg St ltac:(lia) ltac:(lia)) as F1.
+  pose proof (blk_z_frame nz nx (sc_h k c dx) (sc_h k c dz) grad' (sc_v k c vzero) xsa zsa (sc_i k c dzi) (sc_i2 k c dz2i)
+                (xsi + 1) dxe (-1) 1 (i + 1) i (sc_v k c vref) (c * taue)%R (c * tauev)%R
+                tdn' tt' sg' St' ltac:(lia) ltac:(lia)) as F1'.
+  match type of R1 with TRel (fst ?b) (fst ?b') => set (B1v := b) in *; set (B1v' := b') in * end.
+  assert (B2' : BelowIff (fst B1v) (fst B1v') (i + 1) xsi).
+  { unfold BelowIff. rewrite (frame_get _ _ _ (i + 1) xsi F1), (frame_get _ _ _ (i + 1) xsi F1') by lia. exact B2. }
+  pose proof (blk_z_sim dx dz grad grad' vzero xsa zsa dzi dz2i xsi dxw (-1) (-1) (i + 1) i vref taue tauev
+                tdn tdn' (fst B1v) (fst B1v') (snd B1v) (snd B1v') R1 ltac:(lia) ltac:(lia) ltac:(lia) Htdn B2') as R2.
+  split; [apply wf_set, W|]. split; [apply wf_set, W'|]. split; [exact S|]. split; [exact S'|].
+  split; [first [exact Htdn | exact Ev] | exact R2].
+Qed.
+
+(* ---------- loops: lock step, knowing that the states met on the way lead to the final states ---------- *)
+Lemma for_list_sim_fin {S1 S2} (Rl : Z -> S1 -> S2 -> Prop) (b1 : Z -> S1 -> S1) (b2 : Z -> S2 -> S2) (f1 f2 : Z -> Z) n :
+  forall a s1 s2, Rl a s1 s2 ->
+    (forall p m x y, a <= p -> p + 1 + Z.of_nat m = a + Z.of_nat n ->
+       for_list (map f1 (upto (p + 1) m)) b1 (b1 (f1 p) x) = for_list (map f1 (upto a n)) b1 s1 ->
+       for_list (map f2 (upto (p + 1) m)) b2 (b2 (f2 p) y) = for_list (map f2 (upto a n)) b2 s2 ->
+       Rl p x y -> Rl (p + 1) (b1 (f1 p) x) (b2 (f2 p) y)) ->
+    Rl (a + Z.of_nat n) (for_list (map f1 (upto a n)) b1 s1) (for_list (map f2 (upto a n)) b2 s2).
+Proof.
+  induction n as [|n IH]; intros a s1 s2 H0 Hs.
+  - cbn. replace (a + 0) with a by lia. exact H0.
+  - rewrite upto_S. cbn [map]. rewrite !for_list_cons.
+    replace (a + Z.of_nat (S n)) with ((a + 1) + Z.of_nat n) by lia.
+    apply IH.
+    + apply (Hs a n s1 s2); [lia | lia | rewrite upto_S; reflexivity | rewrite upto_S; reflexivity | exact H0].
+    + intros p m x y Hp Hm E1 E2 Hxy. apply (Hs p m x y); [lia | lia | | | exact Hxy].
+      * rewrite E1, upto_S. reflexivity.
+      * rewrite E2, upto_S. reflexivity.
+Qed.
+
+Lemma in_upto x a n : In x (upto a n) <-> a <= x < a + Z.of_nat n.
+Proof.
+  unfold upto. rewrite in_map_iff. split.
+  - intros (q & <- & Hq). apply in_seq in Hq. lia.
+  - intros H. exists (Z.to_nat (x - a)). split; [lia|]. apply in_seq. lia.
+Qed.
+
+(* what the rest of a loop (iteration p and the m following ones) can modify *)
+Lemma rest_frame (body : Z -> St -> St) (Wk : Z -> Z -> Z -> Prop) (f : Z -> Z) p m x :
+  shape (ttof x) = [nz; nx] ->
+  (forall q s, p <= q < p + 1 + Z.of_nat m -> shape (ttof s) = [nz; nx] ->
+     Frame nz nx (Wk (f q)) (ttof s) (ttof (body (f q) s))) ->
+  Frame nz nx (fun a b => exists q, p <= q < p + 1 + Z.of_nat m /\ Wk (f q) a b) (ttof x)
+    (ttof (for_list (map f (upto (p + 1) m)) body (body (f p) x))).
+Proof.
+  intros S Hb.
+  pose proof (Hb p x ltac:(lia) S) as F1.
+  assert (S1 : shape (ttof (body (f p) x)) = [nz; nx]) by (destruct F1 as (E & _); congruence).
+  pose proof (for_list_frame nz nx body Wk (map f (upto (p + 1) m)) (body (f p) x) S1) as F2.
+  eapply Frame_weaken; [eapply Frame_trans; [exact F1 | apply F2]|].
+  - intros k' s Hk Ss. apply in_map_iff in Hk. destruct Hk as (q & <- & Hq). apply in_upto in Hq. apply Hb; [lia | exact Ss].
+  - intros a b _ _ [Y|(k' & Hk & Y)]; [exists p; split; [lia | exact Y]|].
+    apply in_map_iff in Hk. destruct Hk as (q & <- & Hq). apply in_upto in Hq. exists q. split; [lia | exact Y].
+Qed.
+
+(* the caveat, node by node: IF the two entries are related (scaled, or Big on both sides) THEN they are on the same
+   side of Big.  (Only the case "scaled" says something.) *)
+Definition CondBelow (tt tt' : arr R) (a b : Z) : Prop :=
+  t2rel c (get 0%R tt [a; b]) (get 0%R tt' [a; b]) -> BelowIff tt tt' a b.
+
+Lemma cond_below_transfer (W1 W2 : Z -> Z -> Prop) (x y Fx Fy : St) a b :
+  Frame nz nx W1 (ttof x) (ttof Fx) -> Frame nz nx W2 (ttof y) (ttof Fy) ->
+  0 <= a < nz -> 0 <= b < nx -> ~ W1 a b -> ~ W2 a b ->
+  CondBelow (ttof Fx) (ttof Fy) a b -> CondBelow (ttof x) (ttof y) a b.
+Proof.
+  intros F1 F2 Ha Hb N1 N2. unfold CondBelow, BelowIff.
+  rewrite (frame_get _ _ _ a b F1 Ha Hb N1), (frame_get _ _ _ a b F2 Ha Hb N2). tauto.
+Qed.
+Lemma below_step (W1 W2 : Z -> Z -> Prop) (x y Fx Fy : St) a b :
+  Frame nz nx W1 (ttof x) (ttof Fx) -> Frame nz nx W2 (ttof y) (ttof Fy) ->
+  0 <= a < nz -> 0 <= b < nx -> ~ W1 a b -> ~ W2 a b ->
+  CondBelow (ttof Fx) (ttof Fy) a b -> TRel (ttof x) (ttof y) -> BelowIff (ttof x) (ttof y) a b.
+Proof.
+  intros F1 F2 Ha Hb N1 N2 HC HR. apply (cond_below_transfer W1 W2 x y Fx Fy a b F1 F2 Ha Hb N1 N2 HC).
+  apply TRel_get; assumption.
+Qed.
+Lemma SimS_TRel p st st' : SimS p st st' -> TRel (ttof st) (ttof st').
+Proof. intros (_ & _ & _ & _ & _ & HR). exact HR. Qed.
+
+Lemma SimS_shapes p st st' : SimS p st st' -> shape (ttof st) = [nz; nx] /\ shape (ttof st') = [nz; nx].
+Proof. intros (_ & _ & _ & _ & _ & (_ & _ & E & E' & _)). split; assumption. Qed.
+
+(* ---------- east ---------- *)
+Lemma east_phase_sim (dzu dzd dxe : R) st st' :
+  wf (fst (fst st)) -> wf (fst (fst st')) -> shape (fst (fst st)) = [M] -> shape (fst (fst st')) = [M] ->
+  TRel (ttof st) (ttof st') ->
+  let F := east_phase dx dz grad nx slow vzero xsa xsi zsa zsi dzu dzd dxe st in
+  let F' := east_phase (sc_h k c dx) (sc_h k c dz) grad' nx (sc_slow k c slow) (sc_v k c vzero) xsa xsi zsa zsi
+              dzu dzd dxe st' in
+  (forall a b, OnRows zsi a -> xsi + 1 <= b < nx - 1 -> CondBelow (ttof F) (ttof F') a b) ->
+  SimS (nx - 1) F F'.
+Proof.
+  intros W W' S S' HR F F' Hbig. subst F F'. unfold east_phase in *. cbv zeta in *.
+  change (ndiv (nofZ 1) (sc_h k c dx)) with (1 / sc_h k c dx)%R in *.
+  change (ndiv (1 / sc_h k c dx)%R (sc_h k c dx)) with (1 / sc_h k c dx / sc_h k c dx)%R in *.
+  rewrite sc_inv2, sc_inv in *.
+  change (ndiv (nofZ 1) dx) with (1 / dx)%R in *. change (ndiv (1 / dx)%R dx) with (1 / dx / dx)%R in *.
+  rewrite pyrange_up in *. set (n := Z.to_nat (nx - (xsi + 2))) in *.
+  rewrite <- (map_id (upto (xsi + 2) n)) in *.
+  replace (nx - 1) with (xsi + 2 + Z.of_nat n - 1) by lia.
+  match goal with |- SimS _ (for_list _ ?b1 ?s1) (for_list _ ?b2 ?s2) =>
+    apply (for_list_sim_fin (fun p => SimS (p - 1)) b1 b2 (fun x => x) (fun x => x) n (xsi + 2) s1 s2) end.
+  - unfold SimS, ttof. cbn [fst snd].
+    split; [apply wf_set, W|]. split; [apply wf_set, W'|]. split; [exact S|]. split; [exact S'|].
+    split; [|exact HR]. replace (xsi + 2 - 1) with (xsi + 1) by lia.
+    rewrite (get1_set_same _ M (xsi + 1) _ W S ltac:(lia)), (get1_set_same _ M (xsi + 1) _ W' S' ltac:(lia)).
+    numR'. apply sc_prod3.
+  - intros p m x y Hp Hm E1 E2 Hxy. destruct (SimS_shapes _ _ _ Hxy) as [Sx Sy].
+    replace (p + 1 - 1) with p by lia.
+    match type of E1 with _ = ?FF => match type of E2 with _ = ?FF' =>
+      assert (Fr : Frame nz nx (fun a b => exists q, p <= q < p + 1 + Z.of_nat m /\ (OnRows zsi a /\ b = q)) (ttof x) (ttof FF))
+        by (rewrite <- E1; apply (rest_frame _ (fun q a b => OnRows zsi a /\ b = q) (fun q => q)); [exact Sx|];
+            intros q s Hq Ss; apply east_body_frame; [exact Hzsi | exact Ss | lia]);
+      assert (Fr' : Frame nz nx (fun a b => exists q, p <= q < p + 1 + Z.of_nat m /\ (OnRows zsi a /\ b = q)) (ttof y) (ttof FF'))
+        by (rewrite <- E2; apply (rest_frame _ (fun q a b => OnRows zsi a /\ b = q) (fun q => q)); [exact Sy|];
+            intros q s Hq Ss; apply east_body_frame; [exact Hzsi | exact Ss | lia])
+    end end.
+    apply east_body_sim; [exact Hxy | lia | |].
+    + eapply (below_step _ _ x y _ _ (zsi + 1) (p - 1) Fr Fr'); try lia;
+        [intros (q & Hq & _ & E); lia | intros (q & Hq & _ & E); lia | apply Hbig; [left; reflexivity | lia] | exact (SimS_TRel _ _ _ Hxy)].
+    + eapply (below_step _ _ x y _ _ zsi (p - 1) Fr Fr'); try lia;
+        [intros (q & Hq & _ & E); lia | intros (q & Hq & _ & E); lia | apply Hbig; [right; reflexivity | lia] | exact (SimS_TRel _ _ _ Hxy)].
+Qed.
+
+(* ---------- west ---------- *)
+Lemma west_phase_sim (dzu dzd dxw : R) st st' :
+  wf (fst (fst st)) -> wf (fst (fst st')) -> shape (fst (fst st)) = [M] -> shape (fst (fst st')) = [M] ->
+  TRel (ttof st) (ttof st') ->
+  let F := west_phase dx dz grad slow vzero xsa xsi zsa zsi dzu dzd dxw st in
+  let F' := west_phase (sc_h k c dx) (sc_h k c dz) grad' (sc_slow k c slow) (sc_v k c vzero) xsa xsi zsa zsi
+              dzu dzd dxw st' in
+  (forall a b, OnRows zsi a -> 1 <= b <= xsi -> CondBelow (ttof F) (ttof F') a b) ->
+  exists p, SimS p F F'.
+Proof.
+  intros W W' S S' HR F F' Hbig. subst F F'. unfold west_phase in *. cbv zeta in *.
+  change (ndiv (nofZ 1) (sc_h k c dx)) with (1 / sc_h k c dx)%R in *.
+  change (ndiv (1 / sc_h k c dx)%R (sc_h k c dx)) with (1 / sc_h k c dx / sc_h k c dx)%R in *.
+  rewrite sc_inv2, sc_inv in *.
+  change (ndiv (nofZ 1) dx) with (1 / dx)%R in *. change (ndiv (1 / dx)%R dx) with (1 / dx / dx)%R in *.
+  rewrite (pyrange_down (xsi - 1) (xsi - 1)) in *. replace (xsi - 1 - (xsi - 1)) with 0 in * by lia.
+  set (n := Z.to_nat (xsi - 1 + 1)) in *.
+  exists (xsi - (0 + Z.of_nat n)).
+  match goal with |- SimS _ (for_list _ ?b1 ?s1) (for_list _ ?b2 ?s2) =>
+    apply (for_list_sim_fin (fun q => SimS (xsi - q)) b1 b2 (fun i => xsi - 1 - i) (fun i => xsi - 1 - i) n 0 s1 s2) end.
+  - unfold SimS, ttof. cbn [fst snd].
+    split; [apply wf_set, W|]. split; [apply wf_set, W'|]. split; [exact S|]. split; [exact S'|].
+    split; [|exact HR]. replace (xsi - 0) with xsi by lia.
+    rewrite (get1_set_same _ M xsi _ W S ltac:(lia)), (get1_set_same _ M xsi _ W' S' ltac:(lia)).
+    numR'. apply sc_prod3.
+  - intros p m x y Hp Hm E1 E2 Hxy. destruct (SimS_shapes _ _ _ Hxy) as [Sx Sy].
+    match type of E1 with _ = ?FF => match type of E2 with _ = ?FF' =>
+      assert (Fr : Frame nz nx (fun a b => exists q, p <= q < p + 1 + Z.of_nat m /\ (OnRows zsi a /\ b = xsi - 1 - q)) (ttof x) (ttof FF))
+        by (rewrite <- E1; apply (rest_frame _ (fun q a b => OnRows zsi a /\ b = q) (fun i => xsi - 1 - i)); [exact Sx|];
+            intros q s Hq Ss; apply west_body_frame; [exact Hzsi | exact Ss | lia]);
+      assert (Fr' : Frame nz nx (fun a b => exists q, p <= q < p + 1 + Z.of_nat m /\ (OnRows zsi a /\ b = xsi - 1 - q)) (ttof y) (ttof FF'))
+        by (rewrite <- E2; apply (rest_frame _ (fun q a b => OnRows zsi a /\ b = q) (fun i => xsi - 1 - i)); [exact Sy|];
+            intros q s Hq Ss; apply west_body_frame; [exact Hzsi | exact Ss | lia])
+    end end.
+    replace (xsi - (p + 1)) with (xsi - 1 - p) by lia.
+    apply west_body_sim; [replace (xsi - 1 - p + 1) with (xsi - p) by lia; exact Hxy | lia | |].
+    + eapply (below_step _ _ x y _ _ (zsi + 1) (xsi - 1 - p + 1) Fr Fr'); try lia;
+        [intros (q & Hq & _ & E); lia | intros (q & Hq & _ & E); lia | apply Hbig; [left; reflexivity | lia] | exact (SimS_TRel _ _ _ Hxy)].
+    + eapply (below_step _ _ x y _ _ zsi (xsi - 1 - p + 1) Fr Fr'); try lia;
+        [intros (q & Hq & _ & E); lia | intros (q & Hq & _ & E); lia | apply Hbig; [right; reflexivity | lia] | exact (SimS_TRel _ _ _ Hxy)].
+Qed.
+
+(* ---------- down ---------- *)
+Lemma down_phase_sim (dxw dxe dzd : R) st st' :
+  wf (fst (fst st)) -> wf (fst (fst st')) -> shape (fst (fst st)) = [M] -> shape (fst (fst st')) = [M] ->
+  TRel (ttof st) (ttof st') ->
+  let F := down_phase dx dz grad nz slow vzero xsa xsi zsa zsi dxw dxe dzd st in
+  let F' := down_phase (sc_h k c dx) (sc_h k c dz) grad' nz (sc_slow k c slow) (sc_v k c vzero) xsa xsi zsa zsi
+              dxw dxe dzd st' in
+  (forall a b, zsi + 1 <= a < nz - 1 -> OnCols xsi b -> CondBelow (ttof F) (ttof F') a b) ->
+  exists p, SimS p F F'.
+Proof.
+  intros W W' S S' HR F F' Hbig. subst F F'. unfold down_phase in *. cbv zeta in *.
+  change (ndiv (nofZ 1) (sc_h k c dz)) with (1 / sc_h k c dz)%R in *.
+  change (ndiv (1 / sc_h k c dz)%R (sc_h k c dz)) with (1 / sc_h k c dz / sc_h k c dz)%R in *.
+  rewrite sc_inv2, sc_inv in *.
+  change (ndiv (nofZ 1) dz) with (1 / dz)%R in *. change (ndiv (1 / dz)%R dz) with (1 / dz / dz)%R in *.
+  rewrite pyrange_up in *. set (n := Z.to_nat (nz - (zsi + 2))) in *.
+  rewrite <- (map_id (upto (zsi + 2) n)) in *.
+  exists (zsi + 2 + Z.of_nat n - 1).
+  match goal with |- SimS _ (for_list _ ?b1 ?s1) (for_list _ ?b2 ?s2) =>
+    apply (for_list_sim_fin (fun p => SimS (p - 1)) b1 b2 (fun x => x) (fun x => x) n (zsi + 2) s1 s2) end.
+  - unfold SimS, ttof. cbn [fst snd].
+    split; [apply wf_set, W|]. split; [apply wf_set, W'|]. split; [exact S|]. split; [exact S'|].
+    split; [|exact HR]. replace (zsi + 2 - 1) with (zsi + 1) by lia.
+    rewrite (get1_set_same _ M (zsi + 1) _ W S ltac:(lia)), (get1_set_same _ M (zsi + 1) _ W' S' ltac:(lia)).
+    numR'. apply sc_prod3.
+  - intros p m x y Hp Hm E1 E2 Hxy. destruct (SimS_shapes _ _ _ Hxy) as [Sx Sy].
+    replace (p + 1 - 1) with p by lia.
+    match type of E1 with _ = ?FF => match type of E2 with _ = ?FF' =>
+      assert (Fr : Frame nz nx (fun a b => exists q, p <= q < p + 1 + Z.of_nat m /\ (a = q /\ OnCols xsi b)) (ttof x) (ttof FF))
+        by (rewrite <- E1; apply (rest_frame _ (fun q a b => a = q /\ OnCols xsi b) (fun q => q)); [exact Sx|];
+            intros q s Hq Ss; apply down_body_frame; [exact Hxsi | exact Ss | lia]);
+      assert (Fr' : Frame nz nx (fun a b => exists q, p <= q < p + 1 + Z.of_nat m /\ (a = q /\ OnCols xsi b)) (ttof y) (ttof FF'))
+        by (rewrite <- E2; apply (rest_frame _ (fun q a b => a = q /\ OnCols xsi b) (fun q => q)); [exact Sy|];
+            intros q s Hq Ss; apply down_body_frame; [exact Hxsi | exact Ss | lia])
+    end end.
+    apply down_body_sim; [exact Hxy | lia | |].
+    + eapply (below_step _ _ x y _ _ (p - 1) (xsi + 1) Fr Fr'); try lia;
+        [intros (q & Hq & E & _); lia | intros (q & Hq & E & _); lia | apply Hbig; [lia | left; reflexivity] | exact (SimS_TRel _ _ _ Hxy)].
+    + eapply (below_step _ _ x y _ _ (p - 1) xsi Fr Fr'); try lia;
+        [intros (q & Hq & E & _); lia | intros (q & Hq & E & _); lia | apply Hbig; [lia | right; reflexivity] | exact (SimS_TRel _ _ _ Hxy)].
+Qed.
+
+(* ---------- up ---------- *)
+Lemma up_phase_sim (dxw dxe dzu : R) st st' :
+  wf (fst (fst st)) -> wf (fst (fst st')) -> shape (fst (fst st)) = [M] -> shape (fst (fst st')) = [M] ->
+  TRel (ttof st) (ttof st') ->
+  let F := up_phase dx dz grad slow vzero xsa xsi zsa zsi dxw dxe dzu st in
+  let F' := up_phase (sc_h k c dx) (sc_h k c dz) grad' (sc_slow k c slow) (sc_v k c vzero) xsa xsi zsa zsi
+              dxw dxe dzu st' in
+  (forall a b, 1 <= a <= zsi -> OnCols xsi b -> CondBelow (ttof F) (ttof F') a b) ->
+  exists p, SimS p F F'.
+Proof.
+  intros W W' S S' HR F F' Hbig. subst F F'. unfold up_phase in *. cbv zeta in *.
+  change (ndiv (nofZ 1) (sc_h k c dz)) with (1 / sc_h k c dz)%R in *.
+  change (ndiv (1 / sc_h k c dz)%R (sc_h k c dz)) with (1 / sc_h k c dz / sc_h k c dz)%R in *.
+  rewrite sc_inv2, sc_inv in *.
+  change (ndiv (nofZ 1) dz) with (1 / dz)%R in *. change (ndiv (1 / dz)%R dz) with (1 / dz / dz)%R in *.
+  rewrite (pyrange_down (zsi - 1) (zsi - 1)) in *. replace (zsi - 1 - (zsi - 1)) with 0 in * by lia.
+  set (n := Z.to_nat (zsi - 1 + 1)) in *.
+  exists (zsi - (0 + Z.of_nat n)).
+  match goal with |- SimS _ (for_list _ ?b1 ?s1) (for_list _ ?b2 ?s2) =>
+    apply (for_list_sim_fin (fun q => SimS (zsi - q)) b1 b2 (fun i => zsi - 1 - i) (fun i => zsi - 1 - i) n 0 s1 s2) end.
+  - unfold SimS, ttof. cbn [fst snd].
+    split; [apply wf_set, W|]. split; [apply wf_set, W'|]. split; [exact S|]. split; [exact S'|].
+    split; [|exact HR]. replace (zsi - 0) with zsi by lia.
+    rewrite (get1_set_same _ M zsi _ W S ltac:(lia)), (get1_set_same _ M zsi _ W' S' ltac:(lia)).
+    numR'. apply sc_prod3.
+  - intros p m x y Hp Hm E1 E2 Hxy. destruct (SimS_shapes _ _ _ Hxy) as [Sx Sy].
+    match type of E1 with _ = ?FF => match type of E2 with _ = ?FF' =>
+      assert (Fr : Frame nz nx (fun a b => exists q, p <= q < p + 1 + Z.of_nat m /\ (a = zsi - 1 - q /\ OnCols xsi b)) (ttof x) (ttof FF))
+        by (rewrite <- E1; apply (rest_frame _ (fun q a b => a = q /\ OnCols xsi b) (fun i => zsi - 1 - i)); [exact Sx|];
+            intros q s Hq Ss; apply up_body_frame; [exact Hxsi | exact Ss | lia]);
+      assert (Fr' : Frame nz nx (fun a b => exists q, p <= q < p + 1 + Z.of_nat m /\ (a = zsi - 1 - q /\ OnCols xsi b)) (ttof y) (ttof FF'))
+        by (rewrite <- E2; apply (rest_frame _ (fun q a b => a = q /\ OnCols xsi b) (fun i => zsi - 1 - i)); [exact Sy|];
+            intros q s Hq Ss; apply up_body_frame; [exact Hxsi | exact Ss | lia])
+    end end.
+    replace (zsi - (p + 1)) with (zsi - 1 - p) by lia.
+    apply up_body_sim; [replace (zsi - 1 - p + 1) with (zsi - p) by lia; exact Hxy | lia | |].
+    + eapply (below_step _ _ x y _ _ (zsi - 1 - p + 1) (xsi + 1) Fr Fr'); try lia;
+        [intros (q & Hq & E & _); lia | intros (q & Hq & E & _); lia | apply Hbig; [lia | left; reflexivity] | exact (SimS_TRel _ _ _ Hxy)].
+    + eapply (below_step _ _ x y _ _ (zsi - 1 - p + 1) xsi Fr Fr'); try lia;
+        [intros (q & Hq & E & _); lia | intros (q & Hq & E & _); lia | apply Hbig; [lia | right; reflexivity] | exact (SimS_TRel _ _ _ Hxy)].
+Qed.
+
+(* ---------- the whole initialisation ---------- *)
+Lemma t_ana_sc i j : t_ana i j (sc_h k c dz) (sc_h k c dx) zsa xsa (sc_v k c vzero) = (c * t_ana i j dz dx zsa xsa vzero)%R.
+Proof. destruct k; cbn [sc_h sc_v]; [apply t_ana_scale_slowness | apply t_ana_scale_length; lra]. Qed.
+
+Lemma corner_fst' (dx0 dz0 vz0 : R) g i j (tt tg : arr R) :
+  fst (corner dx0 dz0 g vz0 xsa zsa i j tt tg) = set tt [i; j] (t_ana i j dz0 dx0 zsa xsa vz0).
+Proof. unfold corner. cbv zeta. cbn [fst]. rewrite t_anad_fst. reflexivity. Qed.
+
+Lemma corners_sim tt tt' tg tg' :
+  TRel tt tt' ->
+  TRel (fst (init_corners dx dz grad vzero xsa xsi zsa zsi tt tg))
+       (fst (init_corners (sc_h k c dx) (sc_h k c dz) grad' (sc_v k c vzero) xsa xsi zsa zsi tt' tg')).
+Proof.
+  intros HR. unfold init_corners. cbv zeta. rewrite !corner_fst', !t_ana_sc.
+  repeat (apply TRel_set; [| lia | lia | left; reflexivity]). exact HR.
+Qed.
+
+Theorem init_scale tt tt' tg tg' sg sg' :
+  M = Z.max nz nx ->
+  TRel tt tt' ->
+  let r := fteik2d_p2 dx dz grad 2 nx nz slow tt tg sg vzero xsa xsi zsa zsi in
+  let r' := fteik2d_p2 (sc_h k c dx) (sc_h k c dz) grad' 2 nx nz (sc_slow k c slow) tt' tg' sg' (sc_v k c vzero)
+              xsa xsi zsa zsi in
+  (forall i j, 0 <= i < nz -> 0 <= j < nx -> CondBelow (fst (fst r)) (fst (fst r')) i j) ->
+  TRel (fst (fst r)) (fst (fst r')).
+Proof.
+  intros EM HR r r' Hbig. subst r r'. rewrite !fteik2d_p2_decompose in *. change (2 =? 2) with true in *.
+  cbv iota zeta in Hbig |- *. cbn [fst snd] in Hbig |- *. rewrite <- EM in *.
+  set (dzu := nabs (nsub zsa (nofZ zsi))) in *. set (dzd := nsub (nofZ 1) dzu) in *.
+  set (dxw := nabs (nsub xsa (nofZ xsi))) in *. set (dxe := nsub (nofZ 1) dxw) in *.
+  pose proof (corners_sim tt tt' tg tg' HR) as R0.
+  set (c0 := init_corners dx dz grad vzero xsa xsi zsa zsi tt tg) in *.
+  set (c0' := init_corners (sc_h k c dx) (sc_h k c dz) grad' (sc_v k c vzero) xsa xsi zsa zsi tt' tg') in *.
+  assert (W0 : wf (full [M] (@Big R NumR))) by (apply wf_full; repeat constructor; lia).
+  set (st1 := east_phase dx dz grad nx slow vzero xsa xsi zsa zsi dzu dzd dxe (full [M] Big, fst c0, sg)) in *.
+  set (st1' := east_phase (sc_h k c dx) (sc_h k c dz) grad' nx (sc_slow k c slow) (sc_v k c vzero) xsa xsi zsa zsi
+                 dzu dzd dxe (full [M] Big, fst c0', sg')) in *.
+  set (st2 := west_phase dx dz grad slow vzero xsa xsi zsa zsi dzu dzd dxw st1) in *.
+  set (st2' := west_phase (sc_h k c dx) (sc_h k c dz) grad' (sc_slow k c slow) (sc_v k c vzero) xsa xsi zsa zsi
+                 dzu dzd dxw st1') in *.
+  set (st3 := down_phase dx dz grad nz slow vzero xsa xsi zsa zsi dxw dxe dzd
+                (fill (fst (fst st2)) Big, snd (fst st2), snd st2)) in *.
+  set (st3' := down_phase (sc_h k c dx) (sc_h k c dz) grad' nz (sc_slow k c slow) (sc_v k c vzero) xsa xsi zsa zsi
+                 dxw dxe dzd (fill (fst (fst st2')) Big, snd (fst st2'), snd st2')) in *.
+  set (st4 := up_phase dx dz grad slow vzero xsa xsi zsa zsi dxw dxe dzu st3) in *.
+  set (st4' := up_phase (sc_h k c dx) (sc_h k c dz) grad' (sc_slow k c slow) (sc_v k c vzero) xsa xsi zsa zsi
+                 dxw dxe dzu st3') in *.
+  change (forall i j, 0 <= i < nz -> 0 <= j < nx -> CondBelow (ttof st4) (ttof st4') i j) in Hbig.
+  change (TRel (ttof st4) (ttof st4')).
+  (* shapes, to be able to speak about what the later phases leave alone *)
+  assert (Sc : shape (fst c0) = [nz; nx] /\ shape (fst c0') = [nz; nx])
+    by (destruct R0 as (_ & _ & E & E' & _); split; assumption).
+  destruct Sc as [Sc Sc'].
+  assert (FE : forall s : St, shape (ttof s) = [nz; nx] -> forall dx0 dz0 g sl vz,
+            shape (ttof (east_phase dx0 dz0 g nx sl vz xsa xsi zsa zsi dzu dzd dxe s)) = [nz; nx]).
+  { intros s Ss dx0 dz0 g sl vz. destruct (east_phase_frame nz nx dx0 dz0 g sl vz xsa zsa zsi xsi Hzsi Hxsi dzu dzd dxe s Ss) as (E & _).
+    congruence. }
+  pose proof (FE (full [M] Big, fst c0, sg) Sc dx dz grad slow vzero) as S1. fold st1 in S1.
+  pose proof (FE (full [M] Big, fst c0', sg') Sc' (sc_h k c dx) (sc_h k c dz) grad' (sc_slow k c slow) (sc_v k c vzero)) as S1'.
+  fold st1' in S1'.
+  pose proof (west_phase_frame nz nx dx dz grad slow vzero xsa zsa zsi xsi Hzsi Hxsi dzu dzd dxw st1 S1) as F2. fold st2 in F2.
+  pose proof (west_phase_frame nz nx (sc_h k c dx) (sc_h k c dz) grad' (sc_slow k c slow) (sc_v k c vzero) xsa zsa zsi xsi
+                Hzsi Hxsi dzu dzd dxw st1' S1') as F2'. fold st2' in F2'.
+  assert (S2 : shape (ttof st2) = [nz; nx]) by (destruct F2 as (E & _); congruence).
+  assert (S2' : shape (ttof st2') = [nz; nx]) by (destruct F2' as (E & _); congruence).
+  pose proof (down_phase_frame nz nx dx dz grad slow vzero xsa zsa zsi xsi Hzsi Hxsi dxw dxe dzd
+                (fill (fst (fst st2)) Big, snd (fst st2), snd st2) S2) as F3. fold st3 in F3.
+  pose proof (down_phase_frame nz nx (sc_h k c dx) (sc_h k c dz) grad' (sc_slow k c slow) (sc_v k c vzero) xsa zsa zsi xsi Hzsi Hxsi
+                dxw dxe dzd (fill (fst (fst st2')) Big, snd (fst st2'), snd st2') S2') as F3'. fold st3' in F3'.
+  change (ttof (fill (fst (fst st2)) Big, snd (fst st2), snd st2)) with (ttof st2) in F3.
+  change (ttof (fill (fst (fst st2')) Big, snd (fst st2'), snd st2')) with (ttof st2') in F3'.
+  assert (S3 : shape (ttof st3) = [nz; nx]) by (destruct F3 as (E & _); congruence).
+  assert (S3' : shape (ttof st3') = [nz; nx]) by (destruct F3' as (E & _); congruence).
+  pose proof (up_phase_frame nz nx dx dz grad slow vzero xsa zsa zsi xsi Hzsi Hxsi dxw dxe dzu st3 S3) as F4. fold st4 in F4.
+  pose proof (up_phase_frame nz nx (sc_h k c dx) (sc_h k c dz) grad' (sc_slow k c slow) (sc_v k c vzero) xsa zsa zsi xsi
+                Hzsi Hxsi dxw dxe dzu st3' S3') as F4'. fold st4' in F4'.
+  pose proof (Frame_trans _ _ _ _ _ _ _ F3 F4) as F34. pose proof (Frame_trans _ _ _ _ _ _ _ F3' F4') as F34'.
+  pose proof (Frame_trans _ _ _ _ _ _ _ F2 F34) as F234. pose proof (Frame_trans _ _ _ _ _ _ _ F2' F34') as F234'.
+  cbv beta in F34, F34', F234, F234'.
+  (* east *)
+  assert (R1 : SimS (nx - 1) st1 st1').
+  { apply east_phase_sim; cbn [fst snd]; auto. unfold ttof; cbn [fst snd]. fold st1 st1'.
+    intros a b Ha Hb.
+    apply (cond_below_transfer _ _ st1 st1' st4 st4' a b F234 F234'); unfold OnRows, OnCols in *;
+      try lia; try (intuition lia); apply Hbig; lia. }
+  destruct R1 as (W1 & W1' & Sd1 & Sd1' & _ & R1).
+  (* west *)
+  assert (R2 : exists p, SimS p st2 st2').
+  { apply west_phase_sim; auto. fold st2 st2'.
+    intros a b Ha Hb.
+    apply (cond_below_transfer _ _ st2 st2' st4 st4' a b F34 F34'); unfold OnRows, OnCols in *;
+      try lia; try (intuition lia); apply Hbig; lia. }
+  destruct R2 as (p2 & W2 & W2' & Sd2 & Sd2' & _ & R2).
+  (* down *)
+  assert (R3 : exists p, SimS p st3 st3').
+  { apply down_phase_sim; cbn [fst snd].
+    - unfold fill. rewrite Sd2. apply wf_full. repeat constructor; lia.
+    - unfold fill. rewrite Sd2'. apply wf_full. repeat constructor; lia.
+    - unfold fill. rewrite Sd2. reflexivity.
+    - unfold fill. rewrite Sd2'. reflexivity.
+    - exact R2.
+    - fold st3 st3'. intros a b Ha Hb.
+      apply (cond_below_transfer _ _ st3 st3' st4 st4' a b F4 F4'); unfold OnRows, OnCols in *;
+        try lia; try (intuition lia); apply Hbig; lia. }
+  destruct R3 as (p3 & W3 & W3' & Sd3 & Sd3' & _ & R3).
+  (* up *)
+  assert (R4 : exists p, SimS p st4 st4').
+  { apply up_phase_sim; auto. fold st4 st4'. intros a b Ha Hb. unfold OnCols in Hb. apply Hbig; lia. }
+  destruct R4 as (p4 & _ & _ & _ & _ & _ & R4). exact R4.
+Qed.
+End Scale.
+
+(* ---------- C05, statements ---------- *)
+(* the relation between the time grids of the two unit systems, spelled out *)
+Lemma TRel_spelled_out nz nx c tt tt' :
+  TRel nz nx c tt tt' <->
+  wf tt /\ wf tt' /\ shape tt = [nz; nx] /\ shape tt' = [nz; nx] /\
+  forall i j, 0 <= i < nz -> 0 <= j < nx ->
+    get 0%R tt' [i; j] = (c * get 0%R tt [i; j])%R \/ (get 0%R tt [i; j] = Big /\ get 0%R tt' [i; j] = Big).
+Proof. reflexivity. Qed.
+
+(* Slowness unit: `slow` and `vzero` multiplied by c > 0.  From related grids the initialisation produces related
+   grids, PROVIDED no time crosses the absolute placeholder Big: every node whose two entries are related is below
+   Big in both runs or in neither (Hbig; for the nodes the loops test). *)
+Theorem fteik2d_init_scale_slowness nz nx c dx dz grad grad' slow tt tt' tg tg' sg sg' vzero xsa zsa zsi xsi :
+  (0 < c)%R -> 0 <= zsi < nz - 1 -> 0 <= xsi < nx - 1 ->
+  TRel nz nx c tt tt' ->
+  let r := fteik2d_p2 dx dz grad 2 nx nz slow tt tg sg vzero xsa xsi zsa zsi in
+  let r' := fteik2d_p2 dx dz grad' 2 nx nz (smap c slow) tt' tg' sg' (c * vzero)%R xsa xsi zsa zsi in
+  forall Hbig : (forall i j, 0 <= i < nz -> 0 <= j < nx ->
+                   t2rel c (get 0%R (fst (fst r)) [i; j]) (get 0%R (fst (fst r')) [i; j]) ->
+                   ((get 0%R (fst (fst r)) [i; j] < Big)%R <-> (get 0%R (fst (fst r')) [i; j] < Big)%R)),
+  TRel nz nx c (fst (fst r)) (fst (fst r')).
+Proof.
+  intros Hc Hzsi Hxsi HR r r' Hbig.
+  exact (init_scale nz nx c Slowness Hc dx dz grad grad' slow vzero xsa zsa zsi xsi (Z.max nz nx) Hzsi Hxsi
+           ltac:(lia) tt tt' tg tg' sg sg' eq_refl HR Hbig).
+Qed.
+
+(* Length unit: dz, dx multiplied by c > 0 (zsa, xsa are in grid units and stay) *)
+Theorem fteik2d_init_scale_length nz nx c dx dz grad grad' slow tt tt' tg tg' sg sg' vzero xsa zsa zsi xsi :
+  (0 < c)%R -> 0 <= zsi < nz - 1 -> 0 <= xsi < nx - 1 ->
+  TRel nz nx c tt tt' ->
+  let r := fteik2d_p2 dx dz grad 2 nx nz slow tt tg sg vzero xsa xsi zsa zsi in
+  let r' := fteik2d_p2 (c * dx)%R (c * dz)%R grad' 2 nx nz slow tt' tg' sg' vzero xsa xsi zsa zsi in
+  forall Hbig : (forall i j, 0 <= i < nz -> 0 <= j < nx ->
+                   t2rel c (get 0%R (fst (fst r)) [i; j]) (get 0%R (fst (fst r')) [i; j]) ->
+                   ((get 0%R (fst (fst r)) [i; j] < Big)%R <-> (get 0%R (fst (fst r')) [i; j] < Big)%R)),
+  TRel nz nx c (fst (fst r)) (fst (fst r')).
+Proof.
+  intros Hc Hzsi Hxsi HR r r' Hbig.
+  exact (init_scale nz nx c Length Hc dx dz grad grad' slow vzero xsa zsa zsi xsi (Z.max nz nx) Hzsi Hxsi
+           ltac:(lia) tt tt' tg tg' sg sg' eq_refl HR Hbig).
+Qed.
+
+(* for c >= 1 the caveat can be put on the reference run alone: no entry below Big is pushed to Big or beyond *)
+Lemma caveat_ge1 (c x x' : R) :
+  (1 <= c)%R -> ((x < Big)%R -> (c * x < Big)%R) -> t2rel c x x' -> ((x < Big)%R <-> (x' < Big)%R).
+Proof.
+  intros Hc Hx [->|[-> ->]]; [|tauto]. split; [exact Hx|].
+  intros H. destruct (Rlt_dec x Big) as [Y|N]; [exact Y|]. exfalso.
+  change (@Big R NumR) with 100000%R in *. nra.
+Qed.
+Corollary fteik2d_init_scale_slowness_ge1 nz nx c dx dz grad grad' slow tt tt' tg tg' sg sg' vzero xsa zsa zsi xsi :
+  (1 <= c)%R -> 0 <= zsi < nz - 1 -> 0 <= xsi < nx - 1 ->
+  TRel nz nx c tt tt' ->
+  let r := fteik2d_p2 dx dz grad 2 nx nz slow tt tg sg vzero xsa xsi zsa zsi in
+  let r' := fteik2d_p2 dx dz grad' 2 nx nz (smap c slow) tt' tg' sg' (c * vzero)%R xsa xsi zsa zsi in
+  forall Hbig : (forall i j, 0 <= i < nz -> 0 <= j < nx ->
+                   (get 0%R (fst (fst r)) [i; j] < Big)%R -> (c * get 0%R (fst (fst r)) [i; j] < Big)%R),
+  TRel nz nx c (fst (fst r)) (fst (fst r')).
+Proof.
+  intros Hc Hzsi Hxsi HR r r' Hbig. apply fteik2d_init_scale_slowness; auto; [lra|].
+  intros i j Hi Hj. apply caveat_ge1; [exact Hc | apply Hbig; assumption].
+Qed.
+Corollary fteik2d_init_scale_length_ge1 nz nx c dx dz grad grad' slow tt tt' tg tg' sg sg' vzero xsa zsa zsi xsi :
+  (1 <= c)%R -> 0 <= zsi < nz - 1 -> 0 <= xsi < nx - 1 ->
+  TRel nz nx c tt tt' ->
+  let r := fteik2d_p2 dx dz grad 2 nx nz slow tt tg sg vzero xsa xsi zsa zsi in
+  let r' := fteik2d_p2 (c * dx)%R (c * dz)%R grad' 2 nx nz slow tt' tg' sg' vzero xsa xsi zsa zsi in
+  forall Hbig : (forall i j, 0 <= i < nz -> 0 <= j < nx ->
+                   (get 0%R (fst (fst r)) [i; j] < Big)%R -> (c * get 0%R (fst (fst r)) [i; j] < Big)%R),
+  TRel nz nx c (fst (fst r)) (fst (fst r')).
+Proof.
+  intros Hc Hzsi Hxsi HR r r' Hbig. apply fteik2d_init_scale_length; auto; [lra|].
+  intros i j Hi Hj. apply caveat_ge1; [exact Hc | apply Hbig; assumption].
+Qed.
+
+(* ---------- non-vacuity of the scaling theorems: the 4 x 4 example above, c = 2 ---------- *)
+Section ScaleExample.
+Let slow0 : arr R := full [3; 3] 1%R.
+Let tt0 : arr R := full [4; 4] Big.
+Let tg0 : arr R := full [4; 4; 2] 0%R.
+Let sg0 : arr Z := full [4; 4; 2] 0.
+Let r0 := fteik2d_p2 2%R 1%R true 2 4 4 slow0 tt0 tg0 sg0 1%R (3 / 2)%R 1 (5 / 4)%R 1.
+
+Lemma ex_tt0_rel : TRel 4 4 2 tt0 tt0.
+Proof.
+  assert (W : wf tt0) by (apply wf_full; repeat constructor; lia).
+  split; [exact W|]. split; [exact W|]. split; [reflexivity|]. split; [reflexivity|].
+  intros i j Hi Hj. right. unfold tt0. rewrite get_full.
+  - split; reflexivity.
+  - cbn [inb_sh]. repeat (apply andb_true_intro; split); first [reflexivity | apply Z.leb_le; lia | apply Z.ltb_lt; lia].
+Qed.
+
+Lemma ex_r0_values i j : 0 <= i < 4 -> 0 <= j < 4 ->
+  get 0%R (fst (fst r0)) [i; j] = t_ana i j 1%R 2%R (5 / 4)%R (3 / 2)%R 1%R \/ get 0%R (fst (fst r0)) [i; j] = Big.
+Proof.
+  intros Hi Hj. unfold r0.
+  apply (fteik2d_init_homogeneous_exact_or_Big 4 4 1 2 true slow0 tt0 tg0 sg0 1 (5 / 4) (3 / 2) 1 1); try lra; try lia.
+  - intros a b Ha Hb. unfold slow0. apply get_full. cbn [inb_sh].
+    repeat (apply andb_true_intro; split); first [reflexivity | apply Z.leb_le; lia | apply Z.ltb_lt; lia].
+  - apply wf_full; repeat constructor; lia.
+  - reflexivity.
+  - intros a b Ha Hb. unfold tt0. apply get_full. cbn [inb_sh].
+    repeat (apply andb_true_intro; split); first [reflexivity | apply Z.leb_le; lia | apply Z.ltb_lt; lia].
+Qed.
+
+Lemma ex_t_ana_small i j : 0 <= i < 4 -> 0 <= j < 4 -> (2 * t_ana i j 1%R 2%R (5 / 4)%R (3 / 2)%R 1%R < Big)%R.
+Proof.
+  intros Hi Hj. rewrite t_ana_exact, Rmult_1_l.
+  assert (0 <= IZR i <= 3)%R by (split; apply IZR_le; lia).
+  assert (0 <= IZR j <= 3)%R by (split; apply IZR_le; lia).
+  change (@Big R NumR) with 100000%R.
+  assert (sqrt ((1 * (IZR i - 5 / 4)) ^ 2 + (2 * (IZR j - 3 / 2)) ^ 2) < 50000)%R; [|lra].
+  rewrite <- (sqrt_square 50000) by lra. apply sqrt_lt_1_alt.
+  destruct H as [H1 H2], H0 as [H3 H4].
+  pose proof (Rle_0_sqr (IZR i - 5 / 4)) as A1. pose proof (Rle_0_sqr (IZR j - 3 / 2)) as B1. unfold Rsqr in A1, B1.
+  assert (A2 : ((IZR i - 5 / 4) * (IZR i - 5 / 4) <= 4)%R) by nra.
+  assert (B2 : ((IZR j - 3 / 2) * (IZR j - 3 / 2) <= 4)%R) by nra.
+  split; nra.
+Qed.
+
+Lemma ex_caveat i j : 0 <= i < 4 -> 0 <= j < 4 ->
+  (get 0%R (fst (fst r0)) [i; j] < Big)%R -> (2 * get 0%R (fst (fst r0)) [i; j] < Big)%R.
+Proof.
+  intros Hi Hj Hlt. destruct (ex_r0_values i j Hi Hj) as [E|E]; rewrite E in *; [|lra].
+  apply ex_t_ana_small; assumption.
+Qed.
+
+Example fteik2d_init_scale_slowness_ex :
+  let r' := fteik2d_p2 2%R 1%R true 2 4 4 (smap 2 slow0) tt0 tg0 sg0 (2 * 1)%R (3 / 2)%R 1 (5 / 4)%R 1 in
+  TRel 4 4 2 (fst (fst r0)) (fst (fst r')) /\
+  get 0%R (fst (fst r')) [2; 3] = (2 * t_ana 2 3 1%R 2%R (5 / 4)%R (3 / 2)%R 1%R)%R.
+Proof.
+  intros r'.
+  assert (HR : TRel 4 4 2 (fst (fst r0)) (fst (fst r'))).
+  { apply fteik2d_init_scale_slowness_ge1; try lra; try lia; [exact ex_tt0_rel | exact ex_caveat]. }
+  split; [exact HR|].
+  destruct fteik2d_init_homogeneous_exact_ex as (E23 & _). fold slow0 tt0 tg0 sg0 in E23. fold r0 in E23.
+  destruct (TRel_get 4 4 2 _ _ 2 3 HR ltac:(lia) ltac:(lia)) as [E|[E _]].
+  - rewrite E, E23. reflexivity.
+  - exfalso. rewrite E23 in E. pose proof (ex_t_ana_small 2 3 ltac:(lia) ltac:(lia)) as Hs.
+    rewrite E in Hs. change (@Big R NumR) with 100000%R in Hs. lra.
+Qed.
+
+Example fteik2d_init_scale_length_ex :
+  let r' := fteik2d_p2 (2 * 2)%R (2 * 1)%R true 2 4 4 slow0 tt0 tg0 sg0 1%R (3 / 2)%R 1 (5 / 4)%R 1 in
+  TRel 4 4 2 (fst (fst r0)) (fst (fst r')) /\
+  get 0%R (fst (fst r')) [2; 3] = (2 * t_ana 2 3 1%R 2%R (5 / 4)%R (3 / 2)%R 1%R)%R.
+Proof.
+  intros r'.
+  assert (HR : TRel 4 4 2 (fst (fst r0)) (fst (fst r'))).
+  { apply fteik2d_init_scale_length_ge1; try lra; try lia; [exact ex_tt0_rel | exact ex_caveat]. }
+  split; [exact HR|].
+  destruct fteik2d_init_homogeneous_exact_ex as (E23 & _). fold slow0 tt0 tg0 sg0 in E23. fold r0 in E23.
+  destruct (TRel_get 4 4 2 _ _ 2 3 HR ltac:(lia) ltac:(lia)) as [E|[E _]].
+  - rewrite E, E23. reflexivity.
+  - exfalso. rewrite E23 in E. pose proof (ex_t_ana_small 2 3 ltac:(lia) ltac:(lia)) as Hs.
+    rewrite E in Hs. change (@Big R NumR) with 100000%R in Hs. lra.
+Qed.
+End ScaleExample.
+
+(* ========================================================================================== *)
+Print Assumptions fteik2d_init_homogeneous_exact.
+Print Assumptions fteik2d_init_homogeneous_exact_or_Big.
+Print Assumptions fteik2d_init_homogeneous_signs.
+Print Assumptions fteik2d_init_homogeneous_exact_ex.
+Print Assumptions FloatExample.homogeneous_pattern_binary64.
+Print Assumptions fteik2d_init_scale_slowness.
+Print Assumptions fteik2d_init_scale_length.
+Print Assumptions fteik2d_init_scale_slowness_ge1.
+Print Assumptions fteik2d_init_scale_length_ge1.
+Print Assumptions fteik2d_init_scale_slowness_ex.
+Print Assumptions fteik2d_init_scale_length_ex.
